@@ -5,7 +5,7 @@ namespace ImathVerif.Gen
 open ImathVerif
 
 /-- extracted from the C++ template at T = Sym; 6 path(s) -/
-def C07.M22.inverse0 {α : Type} [Sub α] [Mul α] [Div α] [Neg α] [LT α] [LE α] [DecidableLT α] [DecidableLE α] [OfNat α 0] [OfNat α 1] (teps : α) (a : M22 α) : (M22 α) :=
+def C07.M22.inverse0 {α : Type} [Sub α] [Mul α] [Div α] [Neg α] [LT α] [LE α] [DecidableLT α] [DecidableLE α] [OfNat α 0] [OfNat α 1] (tmin : α) (a : M22 α) : (M22 α) :=
   let t35 := (-a.x10)
   let t36 := (-a.x01)
   let t39 := ((a.x00 * a.x11) - (a.x10 * a.x01))
@@ -14,7 +14,7 @@ def C07.M22.inverse0 {α : Type} [Sub α] [Mul α] [Div α] [Neg α] [LT α] [LE
   let t42 := (t36 / t39)
   let t43 := (t35 / t39)
   let t44 := (a.x00 / t39)
-  let t46 := (t40 / teps)
+  let t46 := (t40 / tmin)
   let t47 := (sabs a.x11)
   let t48 := (sabs t36)
   let t49 := (sabs t35)
@@ -37,7 +37,7 @@ def C07.M22.inverse0 {α : Type} [Sub α] [Mul α] [Div α] [Neg α] [LT α] [LE
       ⟨(1 : α), (0 : α), (0 : α), (1 : α)⟩
 
 /-- extracted from the C++ template at T = Sym; 6 path(s) -/
-def C07.M22.inverseF {α : Type} [Sub α] [Mul α] [Div α] [Neg α] [LT α] [LE α] [DecidableLT α] [DecidableLE α] [OfNat α 0] [OfNat α 1] (teps : α) (a : M22 α) : (M22 α) :=
+def C07.M22.inverseF {α : Type} [Sub α] [Mul α] [Div α] [Neg α] [LT α] [LE α] [DecidableLT α] [DecidableLE α] [OfNat α 0] [OfNat α 1] (tmin : α) (a : M22 α) : (M22 α) :=
   let t35 := (-a.x10)
   let t36 := (-a.x01)
   let t39 := ((a.x00 * a.x11) - (a.x10 * a.x01))
@@ -46,7 +46,7 @@ def C07.M22.inverseF {α : Type} [Sub α] [Mul α] [Div α] [Neg α] [LT α] [LE
   let t42 := (t36 / t39)
   let t43 := (t35 / t39)
   let t44 := (a.x00 / t39)
-  let t46 := (t40 / teps)
+  let t46 := (t40 / tmin)
   let t47 := (sabs a.x11)
   let t48 := (sabs t36)
   let t49 := (sabs t35)
@@ -69,7 +69,7 @@ def C07.M22.inverseF {α : Type} [Sub α] [Mul α] [Div α] [Neg α] [LT α] [LE
       ⟨(1 : α), (0 : α), (0 : α), (1 : α)⟩
 
 /-- extracted from the C++ template at T = Sym; 6 path(s) -/
-def C07.M22.inverseT {α : Type} [Sub α] [Mul α] [Div α] [Neg α] [LT α] [LE α] [DecidableLT α] [DecidableLE α] [OfNat α 0] [OfNat α 1] (teps : α) (a : M22 α) : Except Exc (M22 α) :=
+def C07.M22.inverseT {α : Type} [Sub α] [Mul α] [Div α] [Neg α] [LT α] [LE α] [DecidableLT α] [DecidableLE α] [OfNat α 0] [OfNat α 1] (tmin : α) (a : M22 α) : Except Exc (M22 α) :=
   let t35 := (-a.x10)
   let t36 := (-a.x01)
   let t39 := ((a.x00 * a.x11) - (a.x10 * a.x01))
@@ -78,7 +78,7 @@ def C07.M22.inverseT {α : Type} [Sub α] [Mul α] [Div α] [Neg α] [LT α] [LE
   let t42 := (t36 / t39)
   let t43 := (t35 / t39)
   let t44 := (a.x00 / t39)
-  let t46 := (t40 / teps)
+  let t46 := (t40 / tmin)
   let t47 := (sabs a.x11)
   let t48 := (sabs t36)
   let t49 := (sabs t35)
@@ -101,7 +101,7 @@ def C07.M22.inverseT {α : Type} [Sub α] [Mul α] [Div α] [Neg α] [LT α] [LE
       .error Exc.invalidArgument
 
 /-- extracted from the C++ template at T = Sym; 6 path(s) -/
-def C07.M22.invert0 {α : Type} [Sub α] [Mul α] [Div α] [Neg α] [LT α] [LE α] [DecidableLT α] [DecidableLE α] [OfNat α 0] [OfNat α 1] (teps : α) (a : M22 α) : (M22 α) :=
+def C07.M22.invert0 {α : Type} [Sub α] [Mul α] [Div α] [Neg α] [LT α] [LE α] [DecidableLT α] [DecidableLE α] [OfNat α 0] [OfNat α 1] (tmin : α) (a : M22 α) : (M22 α) :=
   let t35 := (-a.x10)
   let t36 := (-a.x01)
   let t39 := ((a.x00 * a.x11) - (a.x10 * a.x01))
@@ -110,7 +110,7 @@ def C07.M22.invert0 {α : Type} [Sub α] [Mul α] [Div α] [Neg α] [LT α] [LE 
   let t42 := (t36 / t39)
   let t43 := (t35 / t39)
   let t44 := (a.x00 / t39)
-  let t46 := (t40 / teps)
+  let t46 := (t40 / tmin)
   let t47 := (sabs a.x11)
   let t48 := (sabs t36)
   let t49 := (sabs t35)
@@ -133,7 +133,7 @@ def C07.M22.invert0 {α : Type} [Sub α] [Mul α] [Div α] [Neg α] [LT α] [LE 
       ⟨(1 : α), (0 : α), (0 : α), (1 : α)⟩
 
 /-- extracted from the C++ template at T = Sym; 6 path(s) -/
-def C07.M22.invertF {α : Type} [Sub α] [Mul α] [Div α] [Neg α] [LT α] [LE α] [DecidableLT α] [DecidableLE α] [OfNat α 0] [OfNat α 1] (teps : α) (a : M22 α) : (M22 α) :=
+def C07.M22.invertF {α : Type} [Sub α] [Mul α] [Div α] [Neg α] [LT α] [LE α] [DecidableLT α] [DecidableLE α] [OfNat α 0] [OfNat α 1] (tmin : α) (a : M22 α) : (M22 α) :=
   let t35 := (-a.x10)
   let t36 := (-a.x01)
   let t39 := ((a.x00 * a.x11) - (a.x10 * a.x01))
@@ -142,7 +142,7 @@ def C07.M22.invertF {α : Type} [Sub α] [Mul α] [Div α] [Neg α] [LT α] [LE 
   let t42 := (t36 / t39)
   let t43 := (t35 / t39)
   let t44 := (a.x00 / t39)
-  let t46 := (t40 / teps)
+  let t46 := (t40 / tmin)
   let t47 := (sabs a.x11)
   let t48 := (sabs t36)
   let t49 := (sabs t35)
@@ -165,7 +165,7 @@ def C07.M22.invertF {α : Type} [Sub α] [Mul α] [Div α] [Neg α] [LT α] [LE 
       ⟨(1 : α), (0 : α), (0 : α), (1 : α)⟩
 
 /-- extracted from the C++ template at T = Sym; 6 path(s) -/
-def C07.M22.invertT {α : Type} [Sub α] [Mul α] [Div α] [Neg α] [LT α] [LE α] [DecidableLT α] [DecidableLE α] [OfNat α 0] [OfNat α 1] (teps : α) (a : M22 α) : Except Exc (M22 α) :=
+def C07.M22.invertT {α : Type} [Sub α] [Mul α] [Div α] [Neg α] [LT α] [LE α] [DecidableLT α] [DecidableLE α] [OfNat α 0] [OfNat α 1] (tmin : α) (a : M22 α) : Except Exc (M22 α) :=
   let t35 := (-a.x10)
   let t36 := (-a.x01)
   let t39 := ((a.x00 * a.x11) - (a.x10 * a.x01))
@@ -174,7 +174,7 @@ def C07.M22.invertT {α : Type} [Sub α] [Mul α] [Div α] [Neg α] [LT α] [LE 
   let t42 := (t36 / t39)
   let t43 := (t35 / t39)
   let t44 := (a.x00 / t39)
-  let t46 := (t40 / teps)
+  let t46 := (t40 / tmin)
   let t47 := (sabs a.x11)
   let t48 := (sabs t36)
   let t49 := (sabs t35)
@@ -206,6 +206,7 @@ def C07.M33.inverse0 {α : Type} [Add α] [Sub α] [Mul α] [Div α] [Neg α] [L
   let t42 := (t36 / t39)
   let t43 := (t35 / t39)
   let t44 := (a.x00 / t39)
+  let t46 := (t40 / tmin)
   let t47 := (sabs a.x11)
   let t48 := (sabs t36)
   let t49 := (sabs t35)
@@ -213,45 +214,44 @@ def C07.M33.inverse0 {α : Type} [Add α] [Sub α] [Mul α] [Div α] [Neg α] [L
   let t57 := (-a.x20)
   let t59 := ((t57 * t41) - (a.x21 * t43))
   let t62 := ((t57 * t42) - (a.x21 * t44))
-  let t64 := (t40 / tmin)
-  let t67 := ((a.x20 * a.x01) - (a.x00 * a.x21))
-  let t70 := ((a.x10 * a.x21) - (a.x20 * a.x11))
-  let t73 := ((a.x10 * a.x02) - (a.x00 * a.x12))
-  let t76 := ((a.x00 * a.x22) - (a.x20 * a.x02))
-  let t79 := ((a.x20 * a.x12) - (a.x10 * a.x22))
-  let t82 := ((a.x01 * a.x12) - (a.x11 * a.x02))
-  let t85 := ((a.x21 * a.x02) - (a.x01 * a.x22))
-  let t88 := ((a.x11 * a.x22) - (a.x21 * a.x12))
-  let t93 := (((a.x00 * t88) + (a.x01 * t79)) + (a.x02 * t70))
-  let t94 := (sabs t93)
-  let t95 := (t88 / t93)
-  let t96 := (t85 / t93)
-  let t97 := (t82 / t93)
-  let t98 := (t79 / t93)
-  let t99 := (t76 / t93)
-  let t100 := (t73 / t93)
-  let t101 := (t70 / t93)
-  let t102 := (t67 / t93)
-  let t103 := (t39 / t93)
-  let t104 := (t94 / tmin)
-  let t105 := (sabs t88)
-  let t106 := (sabs t85)
-  let t107 := (sabs t82)
-  let t108 := (sabs t79)
-  let t109 := (sabs t76)
-  let t110 := (sabs t73)
-  let t111 := (sabs t70)
-  let t112 := (sabs t67)
+  let t65 := ((a.x20 * a.x01) - (a.x00 * a.x21))
+  let t68 := ((a.x10 * a.x21) - (a.x20 * a.x11))
+  let t71 := ((a.x10 * a.x02) - (a.x00 * a.x12))
+  let t74 := ((a.x00 * a.x22) - (a.x20 * a.x02))
+  let t77 := ((a.x20 * a.x12) - (a.x10 * a.x22))
+  let t80 := ((a.x01 * a.x12) - (a.x11 * a.x02))
+  let t83 := ((a.x21 * a.x02) - (a.x01 * a.x22))
+  let t86 := ((a.x11 * a.x22) - (a.x21 * a.x12))
+  let t91 := (((a.x00 * t86) + (a.x01 * t77)) + (a.x02 * t68))
+  let t92 := (sabs t91)
+  let t93 := (t86 / t91)
+  let t94 := (t83 / t91)
+  let t95 := (t80 / t91)
+  let t96 := (t77 / t91)
+  let t97 := (t74 / t91)
+  let t98 := (t71 / t91)
+  let t99 := (t68 / t91)
+  let t100 := (t65 / t91)
+  let t101 := (t39 / t91)
+  let t102 := (t92 / tmin)
+  let t103 := (sabs t86)
+  let t104 := (sabs t83)
+  let t105 := (sabs t80)
+  let t106 := (sabs t77)
+  let t107 := (sabs t74)
+  let t108 := (sabs t71)
+  let t109 := (sabs t68)
+  let t110 := (sabs t65)
   if a.x02 = (0 : α) then
     if a.x12 = (0 : α) then
       if a.x22 = (1 : α) then
         if (1 : α) ≤ t40 then
           ⟨t41, t42, (0 : α), t43, t44, (0 : α), t59, t62, (1 : α)⟩
         else
-          if t47 < t64 then
-            if t48 < t64 then
-              if t49 < t64 then
-                if t50 < t64 then
+          if t47 < t46 then
+            if t48 < t46 then
+              if t49 < t46 then
+                if t50 < t46 then
                   ⟨t41, t42, (0 : α), t43, t44, (0 : α), t59, t62, (1 : α)⟩
                 else
                   ⟨(1 : α), (0 : α), (0 : α), (0 : α), (1 : α), (0 : α), (0 : α), (0 : α), (1 : α)⟩
@@ -262,19 +262,19 @@ def C07.M33.inverse0 {α : Type} [Add α] [Sub α] [Mul α] [Div α] [Neg α] [L
           else
             ⟨(1 : α), (0 : α), (0 : α), (0 : α), (1 : α), (0 : α), (0 : α), (0 : α), (1 : α)⟩
       else
-        if (1 : α) ≤ t94 then
-          ⟨t95, t96, t97, t98, t99, t100, t101, t102, t103⟩
+        if (1 : α) ≤ t92 then
+          ⟨t93, t94, t95, t96, t97, t98, t99, t100, t101⟩
         else
-          if t105 < t104 then
-            if t106 < t104 then
-              if t107 < t104 then
-                if t108 < t104 then
-                  if t109 < t104 then
-                    if t110 < t104 then
-                      if t111 < t104 then
-                        if t112 < t104 then
-                          if t40 < t104 then
-                            ⟨t95, t96, t97, t98, t99, t100, t101, t102, t103⟩
+          if t103 < t102 then
+            if t104 < t102 then
+              if t105 < t102 then
+                if t106 < t102 then
+                  if t107 < t102 then
+                    if t108 < t102 then
+                      if t109 < t102 then
+                        if t110 < t102 then
+                          if t40 < t102 then
+                            ⟨t93, t94, t95, t96, t97, t98, t99, t100, t101⟩
                           else
                             ⟨(1 : α), (0 : α), (0 : α), (0 : α), (1 : α), (0 : α), (0 : α), (0 : α), (1 : α)⟩
                         else
@@ -294,19 +294,19 @@ def C07.M33.inverse0 {α : Type} [Add α] [Sub α] [Mul α] [Div α] [Neg α] [L
           else
             ⟨(1 : α), (0 : α), (0 : α), (0 : α), (1 : α), (0 : α), (0 : α), (0 : α), (1 : α)⟩
     else
-      if (1 : α) ≤ t94 then
-        ⟨t95, t96, t97, t98, t99, t100, t101, t102, t103⟩
+      if (1 : α) ≤ t92 then
+        ⟨t93, t94, t95, t96, t97, t98, t99, t100, t101⟩
       else
-        if t105 < t104 then
-          if t106 < t104 then
-            if t107 < t104 then
-              if t108 < t104 then
-                if t109 < t104 then
-                  if t110 < t104 then
-                    if t111 < t104 then
-                      if t112 < t104 then
-                        if t40 < t104 then
-                          ⟨t95, t96, t97, t98, t99, t100, t101, t102, t103⟩
+        if t103 < t102 then
+          if t104 < t102 then
+            if t105 < t102 then
+              if t106 < t102 then
+                if t107 < t102 then
+                  if t108 < t102 then
+                    if t109 < t102 then
+                      if t110 < t102 then
+                        if t40 < t102 then
+                          ⟨t93, t94, t95, t96, t97, t98, t99, t100, t101⟩
                         else
                           ⟨(1 : α), (0 : α), (0 : α), (0 : α), (1 : α), (0 : α), (0 : α), (0 : α), (1 : α)⟩
                       else
@@ -326,19 +326,19 @@ def C07.M33.inverse0 {α : Type} [Add α] [Sub α] [Mul α] [Div α] [Neg α] [L
         else
           ⟨(1 : α), (0 : α), (0 : α), (0 : α), (1 : α), (0 : α), (0 : α), (0 : α), (1 : α)⟩
   else
-    if (1 : α) ≤ t94 then
-      ⟨t95, t96, t97, t98, t99, t100, t101, t102, t103⟩
+    if (1 : α) ≤ t92 then
+      ⟨t93, t94, t95, t96, t97, t98, t99, t100, t101⟩
     else
-      if t105 < t104 then
-        if t106 < t104 then
-          if t107 < t104 then
-            if t108 < t104 then
-              if t109 < t104 then
-                if t110 < t104 then
-                  if t111 < t104 then
-                    if t112 < t104 then
-                      if t40 < t104 then
-                        ⟨t95, t96, t97, t98, t99, t100, t101, t102, t103⟩
+      if t103 < t102 then
+        if t104 < t102 then
+          if t105 < t102 then
+            if t106 < t102 then
+              if t107 < t102 then
+                if t108 < t102 then
+                  if t109 < t102 then
+                    if t110 < t102 then
+                      if t40 < t102 then
+                        ⟨t93, t94, t95, t96, t97, t98, t99, t100, t101⟩
                       else
                         ⟨(1 : α), (0 : α), (0 : α), (0 : α), (1 : α), (0 : α), (0 : α), (0 : α), (1 : α)⟩
                     else
@@ -368,6 +368,7 @@ def C07.M33.inverseF {α : Type} [Add α] [Sub α] [Mul α] [Div α] [Neg α] [L
   let t42 := (t36 / t39)
   let t43 := (t35 / t39)
   let t44 := (a.x00 / t39)
+  let t46 := (t40 / tmin)
   let t47 := (sabs a.x11)
   let t48 := (sabs t36)
   let t49 := (sabs t35)
@@ -375,45 +376,44 @@ def C07.M33.inverseF {α : Type} [Add α] [Sub α] [Mul α] [Div α] [Neg α] [L
   let t57 := (-a.x20)
   let t59 := ((t57 * t41) - (a.x21 * t43))
   let t62 := ((t57 * t42) - (a.x21 * t44))
-  let t64 := (t40 / tmin)
-  let t67 := ((a.x20 * a.x01) - (a.x00 * a.x21))
-  let t70 := ((a.x10 * a.x21) - (a.x20 * a.x11))
-  let t73 := ((a.x10 * a.x02) - (a.x00 * a.x12))
-  let t76 := ((a.x00 * a.x22) - (a.x20 * a.x02))
-  let t79 := ((a.x20 * a.x12) - (a.x10 * a.x22))
-  let t82 := ((a.x01 * a.x12) - (a.x11 * a.x02))
-  let t85 := ((a.x21 * a.x02) - (a.x01 * a.x22))
-  let t88 := ((a.x11 * a.x22) - (a.x21 * a.x12))
-  let t93 := (((a.x00 * t88) + (a.x01 * t79)) + (a.x02 * t70))
-  let t94 := (sabs t93)
-  let t95 := (t88 / t93)
-  let t96 := (t85 / t93)
-  let t97 := (t82 / t93)
-  let t98 := (t79 / t93)
-  let t99 := (t76 / t93)
-  let t100 := (t73 / t93)
-  let t101 := (t70 / t93)
-  let t102 := (t67 / t93)
-  let t103 := (t39 / t93)
-  let t104 := (t94 / tmin)
-  let t105 := (sabs t88)
-  let t106 := (sabs t85)
-  let t107 := (sabs t82)
-  let t108 := (sabs t79)
-  let t109 := (sabs t76)
-  let t110 := (sabs t73)
-  let t111 := (sabs t70)
-  let t112 := (sabs t67)
+  let t65 := ((a.x20 * a.x01) - (a.x00 * a.x21))
+  let t68 := ((a.x10 * a.x21) - (a.x20 * a.x11))
+  let t71 := ((a.x10 * a.x02) - (a.x00 * a.x12))
+  let t74 := ((a.x00 * a.x22) - (a.x20 * a.x02))
+  let t77 := ((a.x20 * a.x12) - (a.x10 * a.x22))
+  let t80 := ((a.x01 * a.x12) - (a.x11 * a.x02))
+  let t83 := ((a.x21 * a.x02) - (a.x01 * a.x22))
+  let t86 := ((a.x11 * a.x22) - (a.x21 * a.x12))
+  let t91 := (((a.x00 * t86) + (a.x01 * t77)) + (a.x02 * t68))
+  let t92 := (sabs t91)
+  let t93 := (t86 / t91)
+  let t94 := (t83 / t91)
+  let t95 := (t80 / t91)
+  let t96 := (t77 / t91)
+  let t97 := (t74 / t91)
+  let t98 := (t71 / t91)
+  let t99 := (t68 / t91)
+  let t100 := (t65 / t91)
+  let t101 := (t39 / t91)
+  let t102 := (t92 / tmin)
+  let t103 := (sabs t86)
+  let t104 := (sabs t83)
+  let t105 := (sabs t80)
+  let t106 := (sabs t77)
+  let t107 := (sabs t74)
+  let t108 := (sabs t71)
+  let t109 := (sabs t68)
+  let t110 := (sabs t65)
   if a.x02 = (0 : α) then
     if a.x12 = (0 : α) then
       if a.x22 = (1 : α) then
         if (1 : α) ≤ t40 then
           ⟨t41, t42, (0 : α), t43, t44, (0 : α), t59, t62, (1 : α)⟩
         else
-          if t47 < t64 then
-            if t48 < t64 then
-              if t49 < t64 then
-                if t50 < t64 then
+          if t47 < t46 then
+            if t48 < t46 then
+              if t49 < t46 then
+                if t50 < t46 then
                   ⟨t41, t42, (0 : α), t43, t44, (0 : α), t59, t62, (1 : α)⟩
                 else
                   ⟨(1 : α), (0 : α), (0 : α), (0 : α), (1 : α), (0 : α), (0 : α), (0 : α), (1 : α)⟩
@@ -424,19 +424,19 @@ def C07.M33.inverseF {α : Type} [Add α] [Sub α] [Mul α] [Div α] [Neg α] [L
           else
             ⟨(1 : α), (0 : α), (0 : α), (0 : α), (1 : α), (0 : α), (0 : α), (0 : α), (1 : α)⟩
       else
-        if (1 : α) ≤ t94 then
-          ⟨t95, t96, t97, t98, t99, t100, t101, t102, t103⟩
+        if (1 : α) ≤ t92 then
+          ⟨t93, t94, t95, t96, t97, t98, t99, t100, t101⟩
         else
-          if t105 < t104 then
-            if t106 < t104 then
-              if t107 < t104 then
-                if t108 < t104 then
-                  if t109 < t104 then
-                    if t110 < t104 then
-                      if t111 < t104 then
-                        if t112 < t104 then
-                          if t40 < t104 then
-                            ⟨t95, t96, t97, t98, t99, t100, t101, t102, t103⟩
+          if t103 < t102 then
+            if t104 < t102 then
+              if t105 < t102 then
+                if t106 < t102 then
+                  if t107 < t102 then
+                    if t108 < t102 then
+                      if t109 < t102 then
+                        if t110 < t102 then
+                          if t40 < t102 then
+                            ⟨t93, t94, t95, t96, t97, t98, t99, t100, t101⟩
                           else
                             ⟨(1 : α), (0 : α), (0 : α), (0 : α), (1 : α), (0 : α), (0 : α), (0 : α), (1 : α)⟩
                         else
@@ -456,19 +456,19 @@ def C07.M33.inverseF {α : Type} [Add α] [Sub α] [Mul α] [Div α] [Neg α] [L
           else
             ⟨(1 : α), (0 : α), (0 : α), (0 : α), (1 : α), (0 : α), (0 : α), (0 : α), (1 : α)⟩
     else
-      if (1 : α) ≤ t94 then
-        ⟨t95, t96, t97, t98, t99, t100, t101, t102, t103⟩
+      if (1 : α) ≤ t92 then
+        ⟨t93, t94, t95, t96, t97, t98, t99, t100, t101⟩
       else
-        if t105 < t104 then
-          if t106 < t104 then
-            if t107 < t104 then
-              if t108 < t104 then
-                if t109 < t104 then
-                  if t110 < t104 then
-                    if t111 < t104 then
-                      if t112 < t104 then
-                        if t40 < t104 then
-                          ⟨t95, t96, t97, t98, t99, t100, t101, t102, t103⟩
+        if t103 < t102 then
+          if t104 < t102 then
+            if t105 < t102 then
+              if t106 < t102 then
+                if t107 < t102 then
+                  if t108 < t102 then
+                    if t109 < t102 then
+                      if t110 < t102 then
+                        if t40 < t102 then
+                          ⟨t93, t94, t95, t96, t97, t98, t99, t100, t101⟩
                         else
                           ⟨(1 : α), (0 : α), (0 : α), (0 : α), (1 : α), (0 : α), (0 : α), (0 : α), (1 : α)⟩
                       else
@@ -488,19 +488,19 @@ def C07.M33.inverseF {α : Type} [Add α] [Sub α] [Mul α] [Div α] [Neg α] [L
         else
           ⟨(1 : α), (0 : α), (0 : α), (0 : α), (1 : α), (0 : α), (0 : α), (0 : α), (1 : α)⟩
   else
-    if (1 : α) ≤ t94 then
-      ⟨t95, t96, t97, t98, t99, t100, t101, t102, t103⟩
+    if (1 : α) ≤ t92 then
+      ⟨t93, t94, t95, t96, t97, t98, t99, t100, t101⟩
     else
-      if t105 < t104 then
-        if t106 < t104 then
-          if t107 < t104 then
-            if t108 < t104 then
-              if t109 < t104 then
-                if t110 < t104 then
-                  if t111 < t104 then
-                    if t112 < t104 then
-                      if t40 < t104 then
-                        ⟨t95, t96, t97, t98, t99, t100, t101, t102, t103⟩
+      if t103 < t102 then
+        if t104 < t102 then
+          if t105 < t102 then
+            if t106 < t102 then
+              if t107 < t102 then
+                if t108 < t102 then
+                  if t109 < t102 then
+                    if t110 < t102 then
+                      if t40 < t102 then
+                        ⟨t93, t94, t95, t96, t97, t98, t99, t100, t101⟩
                       else
                         ⟨(1 : α), (0 : α), (0 : α), (0 : α), (1 : α), (0 : α), (0 : α), (0 : α), (1 : α)⟩
                     else
@@ -530,6 +530,7 @@ def C07.M33.inverseT {α : Type} [Add α] [Sub α] [Mul α] [Div α] [Neg α] [L
   let t42 := (t36 / t39)
   let t43 := (t35 / t39)
   let t44 := (a.x00 / t39)
+  let t46 := (t40 / tmin)
   let t47 := (sabs a.x11)
   let t48 := (sabs t36)
   let t49 := (sabs t35)
@@ -537,45 +538,44 @@ def C07.M33.inverseT {α : Type} [Add α] [Sub α] [Mul α] [Div α] [Neg α] [L
   let t57 := (-a.x20)
   let t59 := ((t57 * t41) - (a.x21 * t43))
   let t62 := ((t57 * t42) - (a.x21 * t44))
-  let t64 := (t40 / tmin)
-  let t67 := ((a.x20 * a.x01) - (a.x00 * a.x21))
-  let t70 := ((a.x10 * a.x21) - (a.x20 * a.x11))
-  let t73 := ((a.x10 * a.x02) - (a.x00 * a.x12))
-  let t76 := ((a.x00 * a.x22) - (a.x20 * a.x02))
-  let t79 := ((a.x20 * a.x12) - (a.x10 * a.x22))
-  let t82 := ((a.x01 * a.x12) - (a.x11 * a.x02))
-  let t85 := ((a.x21 * a.x02) - (a.x01 * a.x22))
-  let t88 := ((a.x11 * a.x22) - (a.x21 * a.x12))
-  let t93 := (((a.x00 * t88) + (a.x01 * t79)) + (a.x02 * t70))
-  let t94 := (sabs t93)
-  let t95 := (t88 / t93)
-  let t96 := (t85 / t93)
-  let t97 := (t82 / t93)
-  let t98 := (t79 / t93)
-  let t99 := (t76 / t93)
-  let t100 := (t73 / t93)
-  let t101 := (t70 / t93)
-  let t102 := (t67 / t93)
-  let t103 := (t39 / t93)
-  let t104 := (t94 / tmin)
-  let t105 := (sabs t88)
-  let t106 := (sabs t85)
-  let t107 := (sabs t82)
-  let t108 := (sabs t79)
-  let t109 := (sabs t76)
-  let t110 := (sabs t73)
-  let t111 := (sabs t70)
-  let t112 := (sabs t67)
+  let t65 := ((a.x20 * a.x01) - (a.x00 * a.x21))
+  let t68 := ((a.x10 * a.x21) - (a.x20 * a.x11))
+  let t71 := ((a.x10 * a.x02) - (a.x00 * a.x12))
+  let t74 := ((a.x00 * a.x22) - (a.x20 * a.x02))
+  let t77 := ((a.x20 * a.x12) - (a.x10 * a.x22))
+  let t80 := ((a.x01 * a.x12) - (a.x11 * a.x02))
+  let t83 := ((a.x21 * a.x02) - (a.x01 * a.x22))
+  let t86 := ((a.x11 * a.x22) - (a.x21 * a.x12))
+  let t91 := (((a.x00 * t86) + (a.x01 * t77)) + (a.x02 * t68))
+  let t92 := (sabs t91)
+  let t93 := (t86 / t91)
+  let t94 := (t83 / t91)
+  let t95 := (t80 / t91)
+  let t96 := (t77 / t91)
+  let t97 := (t74 / t91)
+  let t98 := (t71 / t91)
+  let t99 := (t68 / t91)
+  let t100 := (t65 / t91)
+  let t101 := (t39 / t91)
+  let t102 := (t92 / tmin)
+  let t103 := (sabs t86)
+  let t104 := (sabs t83)
+  let t105 := (sabs t80)
+  let t106 := (sabs t77)
+  let t107 := (sabs t74)
+  let t108 := (sabs t71)
+  let t109 := (sabs t68)
+  let t110 := (sabs t65)
   if a.x02 = (0 : α) then
     if a.x12 = (0 : α) then
       if a.x22 = (1 : α) then
         if (1 : α) ≤ t40 then
           .ok (⟨t41, t42, (0 : α), t43, t44, (0 : α), t59, t62, (1 : α)⟩)
         else
-          if t47 < t64 then
-            if t48 < t64 then
-              if t49 < t64 then
-                if t50 < t64 then
+          if t47 < t46 then
+            if t48 < t46 then
+              if t49 < t46 then
+                if t50 < t46 then
                   .ok (⟨t41, t42, (0 : α), t43, t44, (0 : α), t59, t62, (1 : α)⟩)
                 else
                   .error Exc.invalidArgument
@@ -586,19 +586,19 @@ def C07.M33.inverseT {α : Type} [Add α] [Sub α] [Mul α] [Div α] [Neg α] [L
           else
             .error Exc.invalidArgument
       else
-        if (1 : α) ≤ t94 then
-          .ok (⟨t95, t96, t97, t98, t99, t100, t101, t102, t103⟩)
+        if (1 : α) ≤ t92 then
+          .ok (⟨t93, t94, t95, t96, t97, t98, t99, t100, t101⟩)
         else
-          if t105 < t104 then
-            if t106 < t104 then
-              if t107 < t104 then
-                if t108 < t104 then
-                  if t109 < t104 then
-                    if t110 < t104 then
-                      if t111 < t104 then
-                        if t112 < t104 then
-                          if t40 < t104 then
-                            .ok (⟨t95, t96, t97, t98, t99, t100, t101, t102, t103⟩)
+          if t103 < t102 then
+            if t104 < t102 then
+              if t105 < t102 then
+                if t106 < t102 then
+                  if t107 < t102 then
+                    if t108 < t102 then
+                      if t109 < t102 then
+                        if t110 < t102 then
+                          if t40 < t102 then
+                            .ok (⟨t93, t94, t95, t96, t97, t98, t99, t100, t101⟩)
                           else
                             .error Exc.invalidArgument
                         else
@@ -618,19 +618,19 @@ def C07.M33.inverseT {α : Type} [Add α] [Sub α] [Mul α] [Div α] [Neg α] [L
           else
             .error Exc.invalidArgument
     else
-      if (1 : α) ≤ t94 then
-        .ok (⟨t95, t96, t97, t98, t99, t100, t101, t102, t103⟩)
+      if (1 : α) ≤ t92 then
+        .ok (⟨t93, t94, t95, t96, t97, t98, t99, t100, t101⟩)
       else
-        if t105 < t104 then
-          if t106 < t104 then
-            if t107 < t104 then
-              if t108 < t104 then
-                if t109 < t104 then
-                  if t110 < t104 then
-                    if t111 < t104 then
-                      if t112 < t104 then
-                        if t40 < t104 then
-                          .ok (⟨t95, t96, t97, t98, t99, t100, t101, t102, t103⟩)
+        if t103 < t102 then
+          if t104 < t102 then
+            if t105 < t102 then
+              if t106 < t102 then
+                if t107 < t102 then
+                  if t108 < t102 then
+                    if t109 < t102 then
+                      if t110 < t102 then
+                        if t40 < t102 then
+                          .ok (⟨t93, t94, t95, t96, t97, t98, t99, t100, t101⟩)
                         else
                           .error Exc.invalidArgument
                       else
@@ -650,19 +650,19 @@ def C07.M33.inverseT {α : Type} [Add α] [Sub α] [Mul α] [Div α] [Neg α] [L
         else
           .error Exc.invalidArgument
   else
-    if (1 : α) ≤ t94 then
-      .ok (⟨t95, t96, t97, t98, t99, t100, t101, t102, t103⟩)
+    if (1 : α) ≤ t92 then
+      .ok (⟨t93, t94, t95, t96, t97, t98, t99, t100, t101⟩)
     else
-      if t105 < t104 then
-        if t106 < t104 then
-          if t107 < t104 then
-            if t108 < t104 then
-              if t109 < t104 then
-                if t110 < t104 then
-                  if t111 < t104 then
-                    if t112 < t104 then
-                      if t40 < t104 then
-                        .ok (⟨t95, t96, t97, t98, t99, t100, t101, t102, t103⟩)
+      if t103 < t102 then
+        if t104 < t102 then
+          if t105 < t102 then
+            if t106 < t102 then
+              if t107 < t102 then
+                if t108 < t102 then
+                  if t109 < t102 then
+                    if t110 < t102 then
+                      if t40 < t102 then
+                        .ok (⟨t93, t94, t95, t96, t97, t98, t99, t100, t101⟩)
                       else
                         .error Exc.invalidArgument
                     else
@@ -692,6 +692,7 @@ def C07.M33.invert0 {α : Type} [Add α] [Sub α] [Mul α] [Div α] [Neg α] [LT
   let t42 := (t36 / t39)
   let t43 := (t35 / t39)
   let t44 := (a.x00 / t39)
+  let t46 := (t40 / tmin)
   let t47 := (sabs a.x11)
   let t48 := (sabs t36)
   let t49 := (sabs t35)
@@ -699,45 +700,44 @@ def C07.M33.invert0 {α : Type} [Add α] [Sub α] [Mul α] [Div α] [Neg α] [LT
   let t57 := (-a.x20)
   let t59 := ((t57 * t41) - (a.x21 * t43))
   let t62 := ((t57 * t42) - (a.x21 * t44))
-  let t64 := (t40 / tmin)
-  let t67 := ((a.x20 * a.x01) - (a.x00 * a.x21))
-  let t70 := ((a.x10 * a.x21) - (a.x20 * a.x11))
-  let t73 := ((a.x10 * a.x02) - (a.x00 * a.x12))
-  let t76 := ((a.x00 * a.x22) - (a.x20 * a.x02))
-  let t79 := ((a.x20 * a.x12) - (a.x10 * a.x22))
-  let t82 := ((a.x01 * a.x12) - (a.x11 * a.x02))
-  let t85 := ((a.x21 * a.x02) - (a.x01 * a.x22))
-  let t88 := ((a.x11 * a.x22) - (a.x21 * a.x12))
-  let t93 := (((a.x00 * t88) + (a.x01 * t79)) + (a.x02 * t70))
-  let t94 := (sabs t93)
-  let t95 := (t88 / t93)
-  let t96 := (t85 / t93)
-  let t97 := (t82 / t93)
-  let t98 := (t79 / t93)
-  let t99 := (t76 / t93)
-  let t100 := (t73 / t93)
-  let t101 := (t70 / t93)
-  let t102 := (t67 / t93)
-  let t103 := (t39 / t93)
-  let t104 := (t94 / tmin)
-  let t105 := (sabs t88)
-  let t106 := (sabs t85)
-  let t107 := (sabs t82)
-  let t108 := (sabs t79)
-  let t109 := (sabs t76)
-  let t110 := (sabs t73)
-  let t111 := (sabs t70)
-  let t112 := (sabs t67)
+  let t65 := ((a.x20 * a.x01) - (a.x00 * a.x21))
+  let t68 := ((a.x10 * a.x21) - (a.x20 * a.x11))
+  let t71 := ((a.x10 * a.x02) - (a.x00 * a.x12))
+  let t74 := ((a.x00 * a.x22) - (a.x20 * a.x02))
+  let t77 := ((a.x20 * a.x12) - (a.x10 * a.x22))
+  let t80 := ((a.x01 * a.x12) - (a.x11 * a.x02))
+  let t83 := ((a.x21 * a.x02) - (a.x01 * a.x22))
+  let t86 := ((a.x11 * a.x22) - (a.x21 * a.x12))
+  let t91 := (((a.x00 * t86) + (a.x01 * t77)) + (a.x02 * t68))
+  let t92 := (sabs t91)
+  let t93 := (t86 / t91)
+  let t94 := (t83 / t91)
+  let t95 := (t80 / t91)
+  let t96 := (t77 / t91)
+  let t97 := (t74 / t91)
+  let t98 := (t71 / t91)
+  let t99 := (t68 / t91)
+  let t100 := (t65 / t91)
+  let t101 := (t39 / t91)
+  let t102 := (t92 / tmin)
+  let t103 := (sabs t86)
+  let t104 := (sabs t83)
+  let t105 := (sabs t80)
+  let t106 := (sabs t77)
+  let t107 := (sabs t74)
+  let t108 := (sabs t71)
+  let t109 := (sabs t68)
+  let t110 := (sabs t65)
   if a.x02 = (0 : α) then
     if a.x12 = (0 : α) then
       if a.x22 = (1 : α) then
         if (1 : α) ≤ t40 then
           ⟨t41, t42, (0 : α), t43, t44, (0 : α), t59, t62, (1 : α)⟩
         else
-          if t47 < t64 then
-            if t48 < t64 then
-              if t49 < t64 then
-                if t50 < t64 then
+          if t47 < t46 then
+            if t48 < t46 then
+              if t49 < t46 then
+                if t50 < t46 then
                   ⟨t41, t42, (0 : α), t43, t44, (0 : α), t59, t62, (1 : α)⟩
                 else
                   ⟨(1 : α), (0 : α), (0 : α), (0 : α), (1 : α), (0 : α), (0 : α), (0 : α), (1 : α)⟩
@@ -748,19 +748,19 @@ def C07.M33.invert0 {α : Type} [Add α] [Sub α] [Mul α] [Div α] [Neg α] [LT
           else
             ⟨(1 : α), (0 : α), (0 : α), (0 : α), (1 : α), (0 : α), (0 : α), (0 : α), (1 : α)⟩
       else
-        if (1 : α) ≤ t94 then
-          ⟨t95, t96, t97, t98, t99, t100, t101, t102, t103⟩
+        if (1 : α) ≤ t92 then
+          ⟨t93, t94, t95, t96, t97, t98, t99, t100, t101⟩
         else
-          if t105 < t104 then
-            if t106 < t104 then
-              if t107 < t104 then
-                if t108 < t104 then
-                  if t109 < t104 then
-                    if t110 < t104 then
-                      if t111 < t104 then
-                        if t112 < t104 then
-                          if t40 < t104 then
-                            ⟨t95, t96, t97, t98, t99, t100, t101, t102, t103⟩
+          if t103 < t102 then
+            if t104 < t102 then
+              if t105 < t102 then
+                if t106 < t102 then
+                  if t107 < t102 then
+                    if t108 < t102 then
+                      if t109 < t102 then
+                        if t110 < t102 then
+                          if t40 < t102 then
+                            ⟨t93, t94, t95, t96, t97, t98, t99, t100, t101⟩
                           else
                             ⟨(1 : α), (0 : α), (0 : α), (0 : α), (1 : α), (0 : α), (0 : α), (0 : α), (1 : α)⟩
                         else
@@ -780,19 +780,19 @@ def C07.M33.invert0 {α : Type} [Add α] [Sub α] [Mul α] [Div α] [Neg α] [LT
           else
             ⟨(1 : α), (0 : α), (0 : α), (0 : α), (1 : α), (0 : α), (0 : α), (0 : α), (1 : α)⟩
     else
-      if (1 : α) ≤ t94 then
-        ⟨t95, t96, t97, t98, t99, t100, t101, t102, t103⟩
+      if (1 : α) ≤ t92 then
+        ⟨t93, t94, t95, t96, t97, t98, t99, t100, t101⟩
       else
-        if t105 < t104 then
-          if t106 < t104 then
-            if t107 < t104 then
-              if t108 < t104 then
-                if t109 < t104 then
-                  if t110 < t104 then
-                    if t111 < t104 then
-                      if t112 < t104 then
-                        if t40 < t104 then
-                          ⟨t95, t96, t97, t98, t99, t100, t101, t102, t103⟩
+        if t103 < t102 then
+          if t104 < t102 then
+            if t105 < t102 then
+              if t106 < t102 then
+                if t107 < t102 then
+                  if t108 < t102 then
+                    if t109 < t102 then
+                      if t110 < t102 then
+                        if t40 < t102 then
+                          ⟨t93, t94, t95, t96, t97, t98, t99, t100, t101⟩
                         else
                           ⟨(1 : α), (0 : α), (0 : α), (0 : α), (1 : α), (0 : α), (0 : α), (0 : α), (1 : α)⟩
                       else
@@ -812,19 +812,19 @@ def C07.M33.invert0 {α : Type} [Add α] [Sub α] [Mul α] [Div α] [Neg α] [LT
         else
           ⟨(1 : α), (0 : α), (0 : α), (0 : α), (1 : α), (0 : α), (0 : α), (0 : α), (1 : α)⟩
   else
-    if (1 : α) ≤ t94 then
-      ⟨t95, t96, t97, t98, t99, t100, t101, t102, t103⟩
+    if (1 : α) ≤ t92 then
+      ⟨t93, t94, t95, t96, t97, t98, t99, t100, t101⟩
     else
-      if t105 < t104 then
-        if t106 < t104 then
-          if t107 < t104 then
-            if t108 < t104 then
-              if t109 < t104 then
-                if t110 < t104 then
-                  if t111 < t104 then
-                    if t112 < t104 then
-                      if t40 < t104 then
-                        ⟨t95, t96, t97, t98, t99, t100, t101, t102, t103⟩
+      if t103 < t102 then
+        if t104 < t102 then
+          if t105 < t102 then
+            if t106 < t102 then
+              if t107 < t102 then
+                if t108 < t102 then
+                  if t109 < t102 then
+                    if t110 < t102 then
+                      if t40 < t102 then
+                        ⟨t93, t94, t95, t96, t97, t98, t99, t100, t101⟩
                       else
                         ⟨(1 : α), (0 : α), (0 : α), (0 : α), (1 : α), (0 : α), (0 : α), (0 : α), (1 : α)⟩
                     else
@@ -854,6 +854,7 @@ def C07.M33.invertF {α : Type} [Add α] [Sub α] [Mul α] [Div α] [Neg α] [LT
   let t42 := (t36 / t39)
   let t43 := (t35 / t39)
   let t44 := (a.x00 / t39)
+  let t46 := (t40 / tmin)
   let t47 := (sabs a.x11)
   let t48 := (sabs t36)
   let t49 := (sabs t35)
@@ -861,45 +862,44 @@ def C07.M33.invertF {α : Type} [Add α] [Sub α] [Mul α] [Div α] [Neg α] [LT
   let t57 := (-a.x20)
   let t59 := ((t57 * t41) - (a.x21 * t43))
   let t62 := ((t57 * t42) - (a.x21 * t44))
-  let t64 := (t40 / tmin)
-  let t67 := ((a.x20 * a.x01) - (a.x00 * a.x21))
-  let t70 := ((a.x10 * a.x21) - (a.x20 * a.x11))
-  let t73 := ((a.x10 * a.x02) - (a.x00 * a.x12))
-  let t76 := ((a.x00 * a.x22) - (a.x20 * a.x02))
-  let t79 := ((a.x20 * a.x12) - (a.x10 * a.x22))
-  let t82 := ((a.x01 * a.x12) - (a.x11 * a.x02))
-  let t85 := ((a.x21 * a.x02) - (a.x01 * a.x22))
-  let t88 := ((a.x11 * a.x22) - (a.x21 * a.x12))
-  let t93 := (((a.x00 * t88) + (a.x01 * t79)) + (a.x02 * t70))
-  let t94 := (sabs t93)
-  let t95 := (t88 / t93)
-  let t96 := (t85 / t93)
-  let t97 := (t82 / t93)
-  let t98 := (t79 / t93)
-  let t99 := (t76 / t93)
-  let t100 := (t73 / t93)
-  let t101 := (t70 / t93)
-  let t102 := (t67 / t93)
-  let t103 := (t39 / t93)
-  let t104 := (t94 / tmin)
-  let t105 := (sabs t88)
-  let t106 := (sabs t85)
-  let t107 := (sabs t82)
-  let t108 := (sabs t79)
-  let t109 := (sabs t76)
-  let t110 := (sabs t73)
-  let t111 := (sabs t70)
-  let t112 := (sabs t67)
+  let t65 := ((a.x20 * a.x01) - (a.x00 * a.x21))
+  let t68 := ((a.x10 * a.x21) - (a.x20 * a.x11))
+  let t71 := ((a.x10 * a.x02) - (a.x00 * a.x12))
+  let t74 := ((a.x00 * a.x22) - (a.x20 * a.x02))
+  let t77 := ((a.x20 * a.x12) - (a.x10 * a.x22))
+  let t80 := ((a.x01 * a.x12) - (a.x11 * a.x02))
+  let t83 := ((a.x21 * a.x02) - (a.x01 * a.x22))
+  let t86 := ((a.x11 * a.x22) - (a.x21 * a.x12))
+  let t91 := (((a.x00 * t86) + (a.x01 * t77)) + (a.x02 * t68))
+  let t92 := (sabs t91)
+  let t93 := (t86 / t91)
+  let t94 := (t83 / t91)
+  let t95 := (t80 / t91)
+  let t96 := (t77 / t91)
+  let t97 := (t74 / t91)
+  let t98 := (t71 / t91)
+  let t99 := (t68 / t91)
+  let t100 := (t65 / t91)
+  let t101 := (t39 / t91)
+  let t102 := (t92 / tmin)
+  let t103 := (sabs t86)
+  let t104 := (sabs t83)
+  let t105 := (sabs t80)
+  let t106 := (sabs t77)
+  let t107 := (sabs t74)
+  let t108 := (sabs t71)
+  let t109 := (sabs t68)
+  let t110 := (sabs t65)
   if a.x02 = (0 : α) then
     if a.x12 = (0 : α) then
       if a.x22 = (1 : α) then
         if (1 : α) ≤ t40 then
           ⟨t41, t42, (0 : α), t43, t44, (0 : α), t59, t62, (1 : α)⟩
         else
-          if t47 < t64 then
-            if t48 < t64 then
-              if t49 < t64 then
-                if t50 < t64 then
+          if t47 < t46 then
+            if t48 < t46 then
+              if t49 < t46 then
+                if t50 < t46 then
                   ⟨t41, t42, (0 : α), t43, t44, (0 : α), t59, t62, (1 : α)⟩
                 else
                   ⟨(1 : α), (0 : α), (0 : α), (0 : α), (1 : α), (0 : α), (0 : α), (0 : α), (1 : α)⟩
@@ -910,19 +910,19 @@ def C07.M33.invertF {α : Type} [Add α] [Sub α] [Mul α] [Div α] [Neg α] [LT
           else
             ⟨(1 : α), (0 : α), (0 : α), (0 : α), (1 : α), (0 : α), (0 : α), (0 : α), (1 : α)⟩
       else
-        if (1 : α) ≤ t94 then
-          ⟨t95, t96, t97, t98, t99, t100, t101, t102, t103⟩
+        if (1 : α) ≤ t92 then
+          ⟨t93, t94, t95, t96, t97, t98, t99, t100, t101⟩
         else
-          if t105 < t104 then
-            if t106 < t104 then
-              if t107 < t104 then
-                if t108 < t104 then
-                  if t109 < t104 then
-                    if t110 < t104 then
-                      if t111 < t104 then
-                        if t112 < t104 then
-                          if t40 < t104 then
-                            ⟨t95, t96, t97, t98, t99, t100, t101, t102, t103⟩
+          if t103 < t102 then
+            if t104 < t102 then
+              if t105 < t102 then
+                if t106 < t102 then
+                  if t107 < t102 then
+                    if t108 < t102 then
+                      if t109 < t102 then
+                        if t110 < t102 then
+                          if t40 < t102 then
+                            ⟨t93, t94, t95, t96, t97, t98, t99, t100, t101⟩
                           else
                             ⟨(1 : α), (0 : α), (0 : α), (0 : α), (1 : α), (0 : α), (0 : α), (0 : α), (1 : α)⟩
                         else
@@ -942,19 +942,19 @@ def C07.M33.invertF {α : Type} [Add α] [Sub α] [Mul α] [Div α] [Neg α] [LT
           else
             ⟨(1 : α), (0 : α), (0 : α), (0 : α), (1 : α), (0 : α), (0 : α), (0 : α), (1 : α)⟩
     else
-      if (1 : α) ≤ t94 then
-        ⟨t95, t96, t97, t98, t99, t100, t101, t102, t103⟩
+      if (1 : α) ≤ t92 then
+        ⟨t93, t94, t95, t96, t97, t98, t99, t100, t101⟩
       else
-        if t105 < t104 then
-          if t106 < t104 then
-            if t107 < t104 then
-              if t108 < t104 then
-                if t109 < t104 then
-                  if t110 < t104 then
-                    if t111 < t104 then
-                      if t112 < t104 then
-                        if t40 < t104 then
-                          ⟨t95, t96, t97, t98, t99, t100, t101, t102, t103⟩
+        if t103 < t102 then
+          if t104 < t102 then
+            if t105 < t102 then
+              if t106 < t102 then
+                if t107 < t102 then
+                  if t108 < t102 then
+                    if t109 < t102 then
+                      if t110 < t102 then
+                        if t40 < t102 then
+                          ⟨t93, t94, t95, t96, t97, t98, t99, t100, t101⟩
                         else
                           ⟨(1 : α), (0 : α), (0 : α), (0 : α), (1 : α), (0 : α), (0 : α), (0 : α), (1 : α)⟩
                       else
@@ -974,19 +974,19 @@ def C07.M33.invertF {α : Type} [Add α] [Sub α] [Mul α] [Div α] [Neg α] [LT
         else
           ⟨(1 : α), (0 : α), (0 : α), (0 : α), (1 : α), (0 : α), (0 : α), (0 : α), (1 : α)⟩
   else
-    if (1 : α) ≤ t94 then
-      ⟨t95, t96, t97, t98, t99, t100, t101, t102, t103⟩
+    if (1 : α) ≤ t92 then
+      ⟨t93, t94, t95, t96, t97, t98, t99, t100, t101⟩
     else
-      if t105 < t104 then
-        if t106 < t104 then
-          if t107 < t104 then
-            if t108 < t104 then
-              if t109 < t104 then
-                if t110 < t104 then
-                  if t111 < t104 then
-                    if t112 < t104 then
-                      if t40 < t104 then
-                        ⟨t95, t96, t97, t98, t99, t100, t101, t102, t103⟩
+      if t103 < t102 then
+        if t104 < t102 then
+          if t105 < t102 then
+            if t106 < t102 then
+              if t107 < t102 then
+                if t108 < t102 then
+                  if t109 < t102 then
+                    if t110 < t102 then
+                      if t40 < t102 then
+                        ⟨t93, t94, t95, t96, t97, t98, t99, t100, t101⟩
                       else
                         ⟨(1 : α), (0 : α), (0 : α), (0 : α), (1 : α), (0 : α), (0 : α), (0 : α), (1 : α)⟩
                     else
@@ -1016,6 +1016,7 @@ def C07.M33.invertT {α : Type} [Add α] [Sub α] [Mul α] [Div α] [Neg α] [LT
   let t42 := (t36 / t39)
   let t43 := (t35 / t39)
   let t44 := (a.x00 / t39)
+  let t46 := (t40 / tmin)
   let t47 := (sabs a.x11)
   let t48 := (sabs t36)
   let t49 := (sabs t35)
@@ -1023,45 +1024,44 @@ def C07.M33.invertT {α : Type} [Add α] [Sub α] [Mul α] [Div α] [Neg α] [LT
   let t57 := (-a.x20)
   let t59 := ((t57 * t41) - (a.x21 * t43))
   let t62 := ((t57 * t42) - (a.x21 * t44))
-  let t64 := (t40 / tmin)
-  let t67 := ((a.x20 * a.x01) - (a.x00 * a.x21))
-  let t70 := ((a.x10 * a.x21) - (a.x20 * a.x11))
-  let t73 := ((a.x10 * a.x02) - (a.x00 * a.x12))
-  let t76 := ((a.x00 * a.x22) - (a.x20 * a.x02))
-  let t79 := ((a.x20 * a.x12) - (a.x10 * a.x22))
-  let t82 := ((a.x01 * a.x12) - (a.x11 * a.x02))
-  let t85 := ((a.x21 * a.x02) - (a.x01 * a.x22))
-  let t88 := ((a.x11 * a.x22) - (a.x21 * a.x12))
-  let t93 := (((a.x00 * t88) + (a.x01 * t79)) + (a.x02 * t70))
-  let t94 := (sabs t93)
-  let t95 := (t88 / t93)
-  let t96 := (t85 / t93)
-  let t97 := (t82 / t93)
-  let t98 := (t79 / t93)
-  let t99 := (t76 / t93)
-  let t100 := (t73 / t93)
-  let t101 := (t70 / t93)
-  let t102 := (t67 / t93)
-  let t103 := (t39 / t93)
-  let t104 := (t94 / tmin)
-  let t105 := (sabs t88)
-  let t106 := (sabs t85)
-  let t107 := (sabs t82)
-  let t108 := (sabs t79)
-  let t109 := (sabs t76)
-  let t110 := (sabs t73)
-  let t111 := (sabs t70)
-  let t112 := (sabs t67)
+  let t65 := ((a.x20 * a.x01) - (a.x00 * a.x21))
+  let t68 := ((a.x10 * a.x21) - (a.x20 * a.x11))
+  let t71 := ((a.x10 * a.x02) - (a.x00 * a.x12))
+  let t74 := ((a.x00 * a.x22) - (a.x20 * a.x02))
+  let t77 := ((a.x20 * a.x12) - (a.x10 * a.x22))
+  let t80 := ((a.x01 * a.x12) - (a.x11 * a.x02))
+  let t83 := ((a.x21 * a.x02) - (a.x01 * a.x22))
+  let t86 := ((a.x11 * a.x22) - (a.x21 * a.x12))
+  let t91 := (((a.x00 * t86) + (a.x01 * t77)) + (a.x02 * t68))
+  let t92 := (sabs t91)
+  let t93 := (t86 / t91)
+  let t94 := (t83 / t91)
+  let t95 := (t80 / t91)
+  let t96 := (t77 / t91)
+  let t97 := (t74 / t91)
+  let t98 := (t71 / t91)
+  let t99 := (t68 / t91)
+  let t100 := (t65 / t91)
+  let t101 := (t39 / t91)
+  let t102 := (t92 / tmin)
+  let t103 := (sabs t86)
+  let t104 := (sabs t83)
+  let t105 := (sabs t80)
+  let t106 := (sabs t77)
+  let t107 := (sabs t74)
+  let t108 := (sabs t71)
+  let t109 := (sabs t68)
+  let t110 := (sabs t65)
   if a.x02 = (0 : α) then
     if a.x12 = (0 : α) then
       if a.x22 = (1 : α) then
         if (1 : α) ≤ t40 then
           .ok (⟨t41, t42, (0 : α), t43, t44, (0 : α), t59, t62, (1 : α)⟩)
         else
-          if t47 < t64 then
-            if t48 < t64 then
-              if t49 < t64 then
-                if t50 < t64 then
+          if t47 < t46 then
+            if t48 < t46 then
+              if t49 < t46 then
+                if t50 < t46 then
                   .ok (⟨t41, t42, (0 : α), t43, t44, (0 : α), t59, t62, (1 : α)⟩)
                 else
                   .error Exc.invalidArgument
@@ -1072,19 +1072,19 @@ def C07.M33.invertT {α : Type} [Add α] [Sub α] [Mul α] [Div α] [Neg α] [LT
           else
             .error Exc.invalidArgument
       else
-        if (1 : α) ≤ t94 then
-          .ok (⟨t95, t96, t97, t98, t99, t100, t101, t102, t103⟩)
+        if (1 : α) ≤ t92 then
+          .ok (⟨t93, t94, t95, t96, t97, t98, t99, t100, t101⟩)
         else
-          if t105 < t104 then
-            if t106 < t104 then
-              if t107 < t104 then
-                if t108 < t104 then
-                  if t109 < t104 then
-                    if t110 < t104 then
-                      if t111 < t104 then
-                        if t112 < t104 then
-                          if t40 < t104 then
-                            .ok (⟨t95, t96, t97, t98, t99, t100, t101, t102, t103⟩)
+          if t103 < t102 then
+            if t104 < t102 then
+              if t105 < t102 then
+                if t106 < t102 then
+                  if t107 < t102 then
+                    if t108 < t102 then
+                      if t109 < t102 then
+                        if t110 < t102 then
+                          if t40 < t102 then
+                            .ok (⟨t93, t94, t95, t96, t97, t98, t99, t100, t101⟩)
                           else
                             .error Exc.invalidArgument
                         else
@@ -1104,19 +1104,19 @@ def C07.M33.invertT {α : Type} [Add α] [Sub α] [Mul α] [Div α] [Neg α] [LT
           else
             .error Exc.invalidArgument
     else
-      if (1 : α) ≤ t94 then
-        .ok (⟨t95, t96, t97, t98, t99, t100, t101, t102, t103⟩)
+      if (1 : α) ≤ t92 then
+        .ok (⟨t93, t94, t95, t96, t97, t98, t99, t100, t101⟩)
       else
-        if t105 < t104 then
-          if t106 < t104 then
-            if t107 < t104 then
-              if t108 < t104 then
-                if t109 < t104 then
-                  if t110 < t104 then
-                    if t111 < t104 then
-                      if t112 < t104 then
-                        if t40 < t104 then
-                          .ok (⟨t95, t96, t97, t98, t99, t100, t101, t102, t103⟩)
+        if t103 < t102 then
+          if t104 < t102 then
+            if t105 < t102 then
+              if t106 < t102 then
+                if t107 < t102 then
+                  if t108 < t102 then
+                    if t109 < t102 then
+                      if t110 < t102 then
+                        if t40 < t102 then
+                          .ok (⟨t93, t94, t95, t96, t97, t98, t99, t100, t101⟩)
                         else
                           .error Exc.invalidArgument
                       else
@@ -1136,19 +1136,19 @@ def C07.M33.invertT {α : Type} [Add α] [Sub α] [Mul α] [Div α] [Neg α] [LT
         else
           .error Exc.invalidArgument
   else
-    if (1 : α) ≤ t94 then
-      .ok (⟨t95, t96, t97, t98, t99, t100, t101, t102, t103⟩)
+    if (1 : α) ≤ t92 then
+      .ok (⟨t93, t94, t95, t96, t97, t98, t99, t100, t101⟩)
     else
-      if t105 < t104 then
-        if t106 < t104 then
-          if t107 < t104 then
-            if t108 < t104 then
-              if t109 < t104 then
-                if t110 < t104 then
-                  if t111 < t104 then
-                    if t112 < t104 then
-                      if t40 < t104 then
-                        .ok (⟨t95, t96, t97, t98, t99, t100, t101, t102, t103⟩)
+      if t103 < t102 then
+        if t104 < t102 then
+          if t105 < t102 then
+            if t106 < t102 then
+              if t107 < t102 then
+                if t108 < t102 then
+                  if t109 < t102 then
+                    if t110 < t102 then
+                      if t40 < t102 then
+                        .ok (⟨t93, t94, t95, t96, t97, t98, t99, t100, t101⟩)
                       else
                         .error Exc.invalidArgument
                     else
@@ -1172,56 +1172,56 @@ def C07.M33.invertT {α : Type} [Add α] [Sub α] [Mul α] [Div α] [Neg α] [LT
 def C07.M44.inverse0 {α : Type} [Add α] [Sub α] [Mul α] [Div α] [Neg α] [LT α] [LE α] [DecidableLT α] [DecidableLE α] [DecidableEq α] [OfNat α 0] [OfNat α 1] (tmin : α) (gj44 : M44 α → M44 α) (a : M44 α) : (M44 α) :=
   let t39 := ((a.x00 * a.x11) - (a.x10 * a.x01))
   let t40 := (sabs t39)
-  let t67 := ((a.x20 * a.x01) - (a.x00 * a.x21))
-  let t70 := ((a.x10 * a.x21) - (a.x20 * a.x11))
-  let t73 := ((a.x10 * a.x02) - (a.x00 * a.x12))
-  let t76 := ((a.x00 * a.x22) - (a.x20 * a.x02))
-  let t79 := ((a.x20 * a.x12) - (a.x10 * a.x22))
-  let t82 := ((a.x01 * a.x12) - (a.x11 * a.x02))
-  let t85 := ((a.x21 * a.x02) - (a.x01 * a.x22))
-  let t88 := ((a.x11 * a.x22) - (a.x21 * a.x12))
-  let t93 := (((a.x00 * t88) + (a.x01 * t79)) + (a.x02 * t70))
-  let t94 := (sabs t93)
-  let t95 := (t88 / t93)
-  let t96 := (t85 / t93)
-  let t97 := (t82 / t93)
-  let t98 := (t79 / t93)
-  let t99 := (t76 / t93)
-  let t100 := (t73 / t93)
-  let t101 := (t70 / t93)
-  let t102 := (t67 / t93)
-  let t103 := (t39 / t93)
-  let t104 := (t94 / tmin)
-  let t105 := (sabs t88)
-  let t106 := (sabs t85)
-  let t107 := (sabs t82)
-  let t108 := (sabs t79)
-  let t109 := (sabs t76)
-  let t110 := (sabs t73)
-  let t111 := (sabs t70)
-  let t112 := (sabs t67)
-  let t122 := (-a.x30)
-  let t125 := (((t122 * t95) - (a.x31 * t98)) - (a.x32 * t101))
-  let t130 := (((t122 * t96) - (a.x31 * t99)) - (a.x32 * t102))
-  let t135 := (((t122 * t97) - (a.x31 * t100)) - (a.x32 * t103))
-  let t136 := (gj44 ⟨a.x00, a.x01, a.x02, a.x03, a.x10, a.x11, a.x12, a.x13, a.x20, a.x21, a.x22, a.x23, a.x30, a.x31, a.x32, a.x33⟩)
+  let t65 := ((a.x20 * a.x01) - (a.x00 * a.x21))
+  let t68 := ((a.x10 * a.x21) - (a.x20 * a.x11))
+  let t71 := ((a.x10 * a.x02) - (a.x00 * a.x12))
+  let t74 := ((a.x00 * a.x22) - (a.x20 * a.x02))
+  let t77 := ((a.x20 * a.x12) - (a.x10 * a.x22))
+  let t80 := ((a.x01 * a.x12) - (a.x11 * a.x02))
+  let t83 := ((a.x21 * a.x02) - (a.x01 * a.x22))
+  let t86 := ((a.x11 * a.x22) - (a.x21 * a.x12))
+  let t91 := (((a.x00 * t86) + (a.x01 * t77)) + (a.x02 * t68))
+  let t92 := (sabs t91)
+  let t93 := (t86 / t91)
+  let t94 := (t83 / t91)
+  let t95 := (t80 / t91)
+  let t96 := (t77 / t91)
+  let t97 := (t74 / t91)
+  let t98 := (t71 / t91)
+  let t99 := (t68 / t91)
+  let t100 := (t65 / t91)
+  let t101 := (t39 / t91)
+  let t102 := (t92 / tmin)
+  let t103 := (sabs t86)
+  let t104 := (sabs t83)
+  let t105 := (sabs t80)
+  let t106 := (sabs t77)
+  let t107 := (sabs t74)
+  let t108 := (sabs t71)
+  let t109 := (sabs t68)
+  let t110 := (sabs t65)
+  let t120 := (-a.x30)
+  let t123 := (((t120 * t93) - (a.x31 * t96)) - (a.x32 * t99))
+  let t128 := (((t120 * t94) - (a.x31 * t97)) - (a.x32 * t100))
+  let t133 := (((t120 * t95) - (a.x31 * t98)) - (a.x32 * t101))
+  let t134 := (gj44 ⟨a.x00, a.x01, a.x02, a.x03, a.x10, a.x11, a.x12, a.x13, a.x20, a.x21, a.x22, a.x23, a.x30, a.x31, a.x32, a.x33⟩)
   if a.x03 = (0 : α) then
     if a.x13 = (0 : α) then
       if a.x23 = (0 : α) then
         if a.x33 = (1 : α) then
-          if (1 : α) ≤ t94 then
-            ⟨t95, t96, t97, (0 : α), t98, t99, t100, (0 : α), t101, t102, t103, (0 : α), t125, t130, t135, (1 : α)⟩
+          if (1 : α) ≤ t92 then
+            ⟨t93, t94, t95, (0 : α), t96, t97, t98, (0 : α), t99, t100, t101, (0 : α), t123, t128, t133, (1 : α)⟩
           else
-            if t105 < t104 then
-              if t106 < t104 then
-                if t107 < t104 then
-                  if t108 < t104 then
-                    if t109 < t104 then
-                      if t110 < t104 then
-                        if t111 < t104 then
-                          if t112 < t104 then
-                            if t40 < t104 then
-                              ⟨t95, t96, t97, (0 : α), t98, t99, t100, (0 : α), t101, t102, t103, (0 : α), t125, t130, t135, (1 : α)⟩
+            if t103 < t102 then
+              if t104 < t102 then
+                if t105 < t102 then
+                  if t106 < t102 then
+                    if t107 < t102 then
+                      if t108 < t102 then
+                        if t109 < t102 then
+                          if t110 < t102 then
+                            if t40 < t102 then
+                              ⟨t93, t94, t95, (0 : α), t96, t97, t98, (0 : α), t99, t100, t101, (0 : α), t123, t128, t133, (1 : α)⟩
                             else
                               ⟨(1 : α), (0 : α), (0 : α), (0 : α), (0 : α), (1 : α), (0 : α), (0 : α), (0 : α), (0 : α), (1 : α), (0 : α), (0 : α), (0 : α), (0 : α), (1 : α)⟩
                           else
@@ -1241,68 +1241,68 @@ def C07.M44.inverse0 {α : Type} [Add α] [Sub α] [Mul α] [Div α] [Neg α] [L
             else
               ⟨(1 : α), (0 : α), (0 : α), (0 : α), (0 : α), (1 : α), (0 : α), (0 : α), (0 : α), (0 : α), (1 : α), (0 : α), (0 : α), (0 : α), (0 : α), (1 : α)⟩
         else
-          ⟨(t136).x00, (t136).x01, (t136).x02, (t136).x03, (t136).x10, (t136).x11, (t136).x12, (t136).x13, (t136).x20, (t136).x21, (t136).x22, (t136).x23, (t136).x30, (t136).x31, (t136).x32, (t136).x33⟩
+          ⟨(t134).x00, (t134).x01, (t134).x02, (t134).x03, (t134).x10, (t134).x11, (t134).x12, (t134).x13, (t134).x20, (t134).x21, (t134).x22, (t134).x23, (t134).x30, (t134).x31, (t134).x32, (t134).x33⟩
       else
-        ⟨(t136).x00, (t136).x01, (t136).x02, (t136).x03, (t136).x10, (t136).x11, (t136).x12, (t136).x13, (t136).x20, (t136).x21, (t136).x22, (t136).x23, (t136).x30, (t136).x31, (t136).x32, (t136).x33⟩
+        ⟨(t134).x00, (t134).x01, (t134).x02, (t134).x03, (t134).x10, (t134).x11, (t134).x12, (t134).x13, (t134).x20, (t134).x21, (t134).x22, (t134).x23, (t134).x30, (t134).x31, (t134).x32, (t134).x33⟩
     else
-      ⟨(t136).x00, (t136).x01, (t136).x02, (t136).x03, (t136).x10, (t136).x11, (t136).x12, (t136).x13, (t136).x20, (t136).x21, (t136).x22, (t136).x23, (t136).x30, (t136).x31, (t136).x32, (t136).x33⟩
+      ⟨(t134).x00, (t134).x01, (t134).x02, (t134).x03, (t134).x10, (t134).x11, (t134).x12, (t134).x13, (t134).x20, (t134).x21, (t134).x22, (t134).x23, (t134).x30, (t134).x31, (t134).x32, (t134).x33⟩
   else
-    ⟨(t136).x00, (t136).x01, (t136).x02, (t136).x03, (t136).x10, (t136).x11, (t136).x12, (t136).x13, (t136).x20, (t136).x21, (t136).x22, (t136).x23, (t136).x30, (t136).x31, (t136).x32, (t136).x33⟩
+    ⟨(t134).x00, (t134).x01, (t134).x02, (t134).x03, (t134).x10, (t134).x11, (t134).x12, (t134).x13, (t134).x20, (t134).x21, (t134).x22, (t134).x23, (t134).x30, (t134).x31, (t134).x32, (t134).x33⟩
 
 /-- extracted from the C++ template at T = Sym; 15 path(s) -/
 def C07.M44.inverseF {α : Type} [Add α] [Sub α] [Mul α] [Div α] [Neg α] [LT α] [LE α] [DecidableLT α] [DecidableLE α] [DecidableEq α] [OfNat α 0] [OfNat α 1] (tmin : α) (gj44F : M44 α → M44 α) (a : M44 α) : (M44 α) :=
   let t39 := ((a.x00 * a.x11) - (a.x10 * a.x01))
   let t40 := (sabs t39)
-  let t67 := ((a.x20 * a.x01) - (a.x00 * a.x21))
-  let t70 := ((a.x10 * a.x21) - (a.x20 * a.x11))
-  let t73 := ((a.x10 * a.x02) - (a.x00 * a.x12))
-  let t76 := ((a.x00 * a.x22) - (a.x20 * a.x02))
-  let t79 := ((a.x20 * a.x12) - (a.x10 * a.x22))
-  let t82 := ((a.x01 * a.x12) - (a.x11 * a.x02))
-  let t85 := ((a.x21 * a.x02) - (a.x01 * a.x22))
-  let t88 := ((a.x11 * a.x22) - (a.x21 * a.x12))
-  let t93 := (((a.x00 * t88) + (a.x01 * t79)) + (a.x02 * t70))
-  let t94 := (sabs t93)
-  let t95 := (t88 / t93)
-  let t96 := (t85 / t93)
-  let t97 := (t82 / t93)
-  let t98 := (t79 / t93)
-  let t99 := (t76 / t93)
-  let t100 := (t73 / t93)
-  let t101 := (t70 / t93)
-  let t102 := (t67 / t93)
-  let t103 := (t39 / t93)
-  let t104 := (t94 / tmin)
-  let t105 := (sabs t88)
-  let t106 := (sabs t85)
-  let t107 := (sabs t82)
-  let t108 := (sabs t79)
-  let t109 := (sabs t76)
-  let t110 := (sabs t73)
-  let t111 := (sabs t70)
-  let t112 := (sabs t67)
-  let t122 := (-a.x30)
-  let t125 := (((t122 * t95) - (a.x31 * t98)) - (a.x32 * t101))
-  let t130 := (((t122 * t96) - (a.x31 * t99)) - (a.x32 * t102))
-  let t135 := (((t122 * t97) - (a.x31 * t100)) - (a.x32 * t103))
-  let t153 := (gj44F ⟨a.x00, a.x01, a.x02, a.x03, a.x10, a.x11, a.x12, a.x13, a.x20, a.x21, a.x22, a.x23, a.x30, a.x31, a.x32, a.x33⟩)
+  let t65 := ((a.x20 * a.x01) - (a.x00 * a.x21))
+  let t68 := ((a.x10 * a.x21) - (a.x20 * a.x11))
+  let t71 := ((a.x10 * a.x02) - (a.x00 * a.x12))
+  let t74 := ((a.x00 * a.x22) - (a.x20 * a.x02))
+  let t77 := ((a.x20 * a.x12) - (a.x10 * a.x22))
+  let t80 := ((a.x01 * a.x12) - (a.x11 * a.x02))
+  let t83 := ((a.x21 * a.x02) - (a.x01 * a.x22))
+  let t86 := ((a.x11 * a.x22) - (a.x21 * a.x12))
+  let t91 := (((a.x00 * t86) + (a.x01 * t77)) + (a.x02 * t68))
+  let t92 := (sabs t91)
+  let t93 := (t86 / t91)
+  let t94 := (t83 / t91)
+  let t95 := (t80 / t91)
+  let t96 := (t77 / t91)
+  let t97 := (t74 / t91)
+  let t98 := (t71 / t91)
+  let t99 := (t68 / t91)
+  let t100 := (t65 / t91)
+  let t101 := (t39 / t91)
+  let t102 := (t92 / tmin)
+  let t103 := (sabs t86)
+  let t104 := (sabs t83)
+  let t105 := (sabs t80)
+  let t106 := (sabs t77)
+  let t107 := (sabs t74)
+  let t108 := (sabs t71)
+  let t109 := (sabs t68)
+  let t110 := (sabs t65)
+  let t120 := (-a.x30)
+  let t123 := (((t120 * t93) - (a.x31 * t96)) - (a.x32 * t99))
+  let t128 := (((t120 * t94) - (a.x31 * t97)) - (a.x32 * t100))
+  let t133 := (((t120 * t95) - (a.x31 * t98)) - (a.x32 * t101))
+  let t151 := (gj44F ⟨a.x00, a.x01, a.x02, a.x03, a.x10, a.x11, a.x12, a.x13, a.x20, a.x21, a.x22, a.x23, a.x30, a.x31, a.x32, a.x33⟩)
   if a.x03 = (0 : α) then
     if a.x13 = (0 : α) then
       if a.x23 = (0 : α) then
         if a.x33 = (1 : α) then
-          if (1 : α) ≤ t94 then
-            ⟨t95, t96, t97, (0 : α), t98, t99, t100, (0 : α), t101, t102, t103, (0 : α), t125, t130, t135, (1 : α)⟩
+          if (1 : α) ≤ t92 then
+            ⟨t93, t94, t95, (0 : α), t96, t97, t98, (0 : α), t99, t100, t101, (0 : α), t123, t128, t133, (1 : α)⟩
           else
-            if t105 < t104 then
-              if t106 < t104 then
-                if t107 < t104 then
-                  if t108 < t104 then
-                    if t109 < t104 then
-                      if t110 < t104 then
-                        if t111 < t104 then
-                          if t112 < t104 then
-                            if t40 < t104 then
-                              ⟨t95, t96, t97, (0 : α), t98, t99, t100, (0 : α), t101, t102, t103, (0 : α), t125, t130, t135, (1 : α)⟩
+            if t103 < t102 then
+              if t104 < t102 then
+                if t105 < t102 then
+                  if t106 < t102 then
+                    if t107 < t102 then
+                      if t108 < t102 then
+                        if t109 < t102 then
+                          if t110 < t102 then
+                            if t40 < t102 then
+                              ⟨t93, t94, t95, (0 : α), t96, t97, t98, (0 : α), t99, t100, t101, (0 : α), t123, t128, t133, (1 : α)⟩
                             else
                               ⟨(1 : α), (0 : α), (0 : α), (0 : α), (0 : α), (1 : α), (0 : α), (0 : α), (0 : α), (0 : α), (1 : α), (0 : α), (0 : α), (0 : α), (0 : α), (1 : α)⟩
                           else
@@ -1322,69 +1322,69 @@ def C07.M44.inverseF {α : Type} [Add α] [Sub α] [Mul α] [Div α] [Neg α] [L
             else
               ⟨(1 : α), (0 : α), (0 : α), (0 : α), (0 : α), (1 : α), (0 : α), (0 : α), (0 : α), (0 : α), (1 : α), (0 : α), (0 : α), (0 : α), (0 : α), (1 : α)⟩
         else
-          ⟨(t153).x00, (t153).x01, (t153).x02, (t153).x03, (t153).x10, (t153).x11, (t153).x12, (t153).x13, (t153).x20, (t153).x21, (t153).x22, (t153).x23, (t153).x30, (t153).x31, (t153).x32, (t153).x33⟩
+          ⟨(t151).x00, (t151).x01, (t151).x02, (t151).x03, (t151).x10, (t151).x11, (t151).x12, (t151).x13, (t151).x20, (t151).x21, (t151).x22, (t151).x23, (t151).x30, (t151).x31, (t151).x32, (t151).x33⟩
       else
-        ⟨(t153).x00, (t153).x01, (t153).x02, (t153).x03, (t153).x10, (t153).x11, (t153).x12, (t153).x13, (t153).x20, (t153).x21, (t153).x22, (t153).x23, (t153).x30, (t153).x31, (t153).x32, (t153).x33⟩
+        ⟨(t151).x00, (t151).x01, (t151).x02, (t151).x03, (t151).x10, (t151).x11, (t151).x12, (t151).x13, (t151).x20, (t151).x21, (t151).x22, (t151).x23, (t151).x30, (t151).x31, (t151).x32, (t151).x33⟩
     else
-      ⟨(t153).x00, (t153).x01, (t153).x02, (t153).x03, (t153).x10, (t153).x11, (t153).x12, (t153).x13, (t153).x20, (t153).x21, (t153).x22, (t153).x23, (t153).x30, (t153).x31, (t153).x32, (t153).x33⟩
+      ⟨(t151).x00, (t151).x01, (t151).x02, (t151).x03, (t151).x10, (t151).x11, (t151).x12, (t151).x13, (t151).x20, (t151).x21, (t151).x22, (t151).x23, (t151).x30, (t151).x31, (t151).x32, (t151).x33⟩
   else
-    ⟨(t153).x00, (t153).x01, (t153).x02, (t153).x03, (t153).x10, (t153).x11, (t153).x12, (t153).x13, (t153).x20, (t153).x21, (t153).x22, (t153).x23, (t153).x30, (t153).x31, (t153).x32, (t153).x33⟩
+    ⟨(t151).x00, (t151).x01, (t151).x02, (t151).x03, (t151).x10, (t151).x11, (t151).x12, (t151).x13, (t151).x20, (t151).x21, (t151).x22, (t151).x23, (t151).x30, (t151).x31, (t151).x32, (t151).x33⟩
 
 /-- extracted from the C++ template at T = Sym; 19 path(s) -/
 def C07.M44.inverseT {α : Type} [Add α] [Sub α] [Mul α] [Div α] [Neg α] [LT α] [LE α] [DecidableLT α] [DecidableLE α] [DecidableEq α] [OfNat α 0] [OfNat α 1] (tmin : α) (gj44Tstatus : M44 α → α) (gj44Tvalue : M44 α → M44 α) (a : M44 α) : Except Exc (M44 α) :=
   let t39 := ((a.x00 * a.x11) - (a.x10 * a.x01))
   let t40 := (sabs t39)
-  let t67 := ((a.x20 * a.x01) - (a.x00 * a.x21))
-  let t70 := ((a.x10 * a.x21) - (a.x20 * a.x11))
-  let t73 := ((a.x10 * a.x02) - (a.x00 * a.x12))
-  let t76 := ((a.x00 * a.x22) - (a.x20 * a.x02))
-  let t79 := ((a.x20 * a.x12) - (a.x10 * a.x22))
-  let t82 := ((a.x01 * a.x12) - (a.x11 * a.x02))
-  let t85 := ((a.x21 * a.x02) - (a.x01 * a.x22))
-  let t88 := ((a.x11 * a.x22) - (a.x21 * a.x12))
-  let t93 := (((a.x00 * t88) + (a.x01 * t79)) + (a.x02 * t70))
-  let t94 := (sabs t93)
-  let t95 := (t88 / t93)
-  let t96 := (t85 / t93)
-  let t97 := (t82 / t93)
-  let t98 := (t79 / t93)
-  let t99 := (t76 / t93)
-  let t100 := (t73 / t93)
-  let t101 := (t70 / t93)
-  let t102 := (t67 / t93)
-  let t103 := (t39 / t93)
-  let t104 := (t94 / tmin)
-  let t105 := (sabs t88)
-  let t106 := (sabs t85)
-  let t107 := (sabs t82)
-  let t108 := (sabs t79)
-  let t109 := (sabs t76)
-  let t110 := (sabs t73)
-  let t111 := (sabs t70)
-  let t112 := (sabs t67)
-  let t122 := (-a.x30)
-  let t125 := (((t122 * t95) - (a.x31 * t98)) - (a.x32 * t101))
-  let t130 := (((t122 * t96) - (a.x31 * t99)) - (a.x32 * t102))
-  let t135 := (((t122 * t97) - (a.x31 * t100)) - (a.x32 * t103))
-  let t170 := (gj44Tstatus ⟨a.x00, a.x01, a.x02, a.x03, a.x10, a.x11, a.x12, a.x13, a.x20, a.x21, a.x22, a.x23, a.x30, a.x31, a.x32, a.x33⟩)
-  let t171 := (gj44Tvalue ⟨a.x00, a.x01, a.x02, a.x03, a.x10, a.x11, a.x12, a.x13, a.x20, a.x21, a.x22, a.x23, a.x30, a.x31, a.x32, a.x33⟩)
+  let t65 := ((a.x20 * a.x01) - (a.x00 * a.x21))
+  let t68 := ((a.x10 * a.x21) - (a.x20 * a.x11))
+  let t71 := ((a.x10 * a.x02) - (a.x00 * a.x12))
+  let t74 := ((a.x00 * a.x22) - (a.x20 * a.x02))
+  let t77 := ((a.x20 * a.x12) - (a.x10 * a.x22))
+  let t80 := ((a.x01 * a.x12) - (a.x11 * a.x02))
+  let t83 := ((a.x21 * a.x02) - (a.x01 * a.x22))
+  let t86 := ((a.x11 * a.x22) - (a.x21 * a.x12))
+  let t91 := (((a.x00 * t86) + (a.x01 * t77)) + (a.x02 * t68))
+  let t92 := (sabs t91)
+  let t93 := (t86 / t91)
+  let t94 := (t83 / t91)
+  let t95 := (t80 / t91)
+  let t96 := (t77 / t91)
+  let t97 := (t74 / t91)
+  let t98 := (t71 / t91)
+  let t99 := (t68 / t91)
+  let t100 := (t65 / t91)
+  let t101 := (t39 / t91)
+  let t102 := (t92 / tmin)
+  let t103 := (sabs t86)
+  let t104 := (sabs t83)
+  let t105 := (sabs t80)
+  let t106 := (sabs t77)
+  let t107 := (sabs t74)
+  let t108 := (sabs t71)
+  let t109 := (sabs t68)
+  let t110 := (sabs t65)
+  let t120 := (-a.x30)
+  let t123 := (((t120 * t93) - (a.x31 * t96)) - (a.x32 * t99))
+  let t128 := (((t120 * t94) - (a.x31 * t97)) - (a.x32 * t100))
+  let t133 := (((t120 * t95) - (a.x31 * t98)) - (a.x32 * t101))
+  let t168 := (gj44Tstatus ⟨a.x00, a.x01, a.x02, a.x03, a.x10, a.x11, a.x12, a.x13, a.x20, a.x21, a.x22, a.x23, a.x30, a.x31, a.x32, a.x33⟩)
+  let t169 := (gj44Tvalue ⟨a.x00, a.x01, a.x02, a.x03, a.x10, a.x11, a.x12, a.x13, a.x20, a.x21, a.x22, a.x23, a.x30, a.x31, a.x32, a.x33⟩)
   if a.x03 = (0 : α) then
     if a.x13 = (0 : α) then
       if a.x23 = (0 : α) then
         if a.x33 = (1 : α) then
-          if (1 : α) ≤ t94 then
-            .ok (⟨t95, t96, t97, (0 : α), t98, t99, t100, (0 : α), t101, t102, t103, (0 : α), t125, t130, t135, (1 : α)⟩)
+          if (1 : α) ≤ t92 then
+            .ok (⟨t93, t94, t95, (0 : α), t96, t97, t98, (0 : α), t99, t100, t101, (0 : α), t123, t128, t133, (1 : α)⟩)
           else
-            if t105 < t104 then
-              if t106 < t104 then
-                if t107 < t104 then
-                  if t108 < t104 then
-                    if t109 < t104 then
-                      if t110 < t104 then
-                        if t111 < t104 then
-                          if t112 < t104 then
-                            if t40 < t104 then
-                              .ok (⟨t95, t96, t97, (0 : α), t98, t99, t100, (0 : α), t101, t102, t103, (0 : α), t125, t130, t135, (1 : α)⟩)
+            if t103 < t102 then
+              if t104 < t102 then
+                if t105 < t102 then
+                  if t106 < t102 then
+                    if t107 < t102 then
+                      if t108 < t102 then
+                        if t109 < t102 then
+                          if t110 < t102 then
+                            if t40 < t102 then
+                              .ok (⟨t93, t94, t95, (0 : α), t96, t97, t98, (0 : α), t99, t100, t101, (0 : α), t123, t128, t133, (1 : α)⟩)
                             else
                               .error Exc.invalidArgument
                           else
@@ -1404,23 +1404,23 @@ def C07.M44.inverseT {α : Type} [Add α] [Sub α] [Mul α] [Div α] [Neg α] [L
             else
               .error Exc.invalidArgument
         else
-          if t170 = (0 : α) then
-            .ok (⟨(t171).x00, (t171).x01, (t171).x02, (t171).x03, (t171).x10, (t171).x11, (t171).x12, (t171).x13, (t171).x20, (t171).x21, (t171).x22, (t171).x23, (t171).x30, (t171).x31, (t171).x32, (t171).x33⟩)
+          if t168 = (0 : α) then
+            .ok (⟨(t169).x00, (t169).x01, (t169).x02, (t169).x03, (t169).x10, (t169).x11, (t169).x12, (t169).x13, (t169).x20, (t169).x21, (t169).x22, (t169).x23, (t169).x30, (t169).x31, (t169).x32, (t169).x33⟩)
           else
             .error Exc.invalidArgument
       else
-        if t170 = (0 : α) then
-          .ok (⟨(t171).x00, (t171).x01, (t171).x02, (t171).x03, (t171).x10, (t171).x11, (t171).x12, (t171).x13, (t171).x20, (t171).x21, (t171).x22, (t171).x23, (t171).x30, (t171).x31, (t171).x32, (t171).x33⟩)
+        if t168 = (0 : α) then
+          .ok (⟨(t169).x00, (t169).x01, (t169).x02, (t169).x03, (t169).x10, (t169).x11, (t169).x12, (t169).x13, (t169).x20, (t169).x21, (t169).x22, (t169).x23, (t169).x30, (t169).x31, (t169).x32, (t169).x33⟩)
         else
           .error Exc.invalidArgument
     else
-      if t170 = (0 : α) then
-        .ok (⟨(t171).x00, (t171).x01, (t171).x02, (t171).x03, (t171).x10, (t171).x11, (t171).x12, (t171).x13, (t171).x20, (t171).x21, (t171).x22, (t171).x23, (t171).x30, (t171).x31, (t171).x32, (t171).x33⟩)
+      if t168 = (0 : α) then
+        .ok (⟨(t169).x00, (t169).x01, (t169).x02, (t169).x03, (t169).x10, (t169).x11, (t169).x12, (t169).x13, (t169).x20, (t169).x21, (t169).x22, (t169).x23, (t169).x30, (t169).x31, (t169).x32, (t169).x33⟩)
       else
         .error Exc.invalidArgument
   else
-    if t170 = (0 : α) then
-      .ok (⟨(t171).x00, (t171).x01, (t171).x02, (t171).x03, (t171).x10, (t171).x11, (t171).x12, (t171).x13, (t171).x20, (t171).x21, (t171).x22, (t171).x23, (t171).x30, (t171).x31, (t171).x32, (t171).x33⟩)
+    if t168 = (0 : α) then
+      .ok (⟨(t169).x00, (t169).x01, (t169).x02, (t169).x03, (t169).x10, (t169).x11, (t169).x12, (t169).x13, (t169).x20, (t169).x21, (t169).x22, (t169).x23, (t169).x30, (t169).x31, (t169).x32, (t169).x33⟩)
     else
       .error Exc.invalidArgument
 
@@ -1428,56 +1428,56 @@ def C07.M44.inverseT {α : Type} [Add α] [Sub α] [Mul α] [Div α] [Neg α] [L
 def C07.M44.invert0 {α : Type} [Add α] [Sub α] [Mul α] [Div α] [Neg α] [LT α] [LE α] [DecidableLT α] [DecidableLE α] [DecidableEq α] [OfNat α 0] [OfNat α 1] (tmin : α) (gj44 : M44 α → M44 α) (a : M44 α) : (M44 α) :=
   let t39 := ((a.x00 * a.x11) - (a.x10 * a.x01))
   let t40 := (sabs t39)
-  let t67 := ((a.x20 * a.x01) - (a.x00 * a.x21))
-  let t70 := ((a.x10 * a.x21) - (a.x20 * a.x11))
-  let t73 := ((a.x10 * a.x02) - (a.x00 * a.x12))
-  let t76 := ((a.x00 * a.x22) - (a.x20 * a.x02))
-  let t79 := ((a.x20 * a.x12) - (a.x10 * a.x22))
-  let t82 := ((a.x01 * a.x12) - (a.x11 * a.x02))
-  let t85 := ((a.x21 * a.x02) - (a.x01 * a.x22))
-  let t88 := ((a.x11 * a.x22) - (a.x21 * a.x12))
-  let t93 := (((a.x00 * t88) + (a.x01 * t79)) + (a.x02 * t70))
-  let t94 := (sabs t93)
-  let t95 := (t88 / t93)
-  let t96 := (t85 / t93)
-  let t97 := (t82 / t93)
-  let t98 := (t79 / t93)
-  let t99 := (t76 / t93)
-  let t100 := (t73 / t93)
-  let t101 := (t70 / t93)
-  let t102 := (t67 / t93)
-  let t103 := (t39 / t93)
-  let t104 := (t94 / tmin)
-  let t105 := (sabs t88)
-  let t106 := (sabs t85)
-  let t107 := (sabs t82)
-  let t108 := (sabs t79)
-  let t109 := (sabs t76)
-  let t110 := (sabs t73)
-  let t111 := (sabs t70)
-  let t112 := (sabs t67)
-  let t122 := (-a.x30)
-  let t125 := (((t122 * t95) - (a.x31 * t98)) - (a.x32 * t101))
-  let t130 := (((t122 * t96) - (a.x31 * t99)) - (a.x32 * t102))
-  let t135 := (((t122 * t97) - (a.x31 * t100)) - (a.x32 * t103))
-  let t136 := (gj44 ⟨a.x00, a.x01, a.x02, a.x03, a.x10, a.x11, a.x12, a.x13, a.x20, a.x21, a.x22, a.x23, a.x30, a.x31, a.x32, a.x33⟩)
+  let t65 := ((a.x20 * a.x01) - (a.x00 * a.x21))
+  let t68 := ((a.x10 * a.x21) - (a.x20 * a.x11))
+  let t71 := ((a.x10 * a.x02) - (a.x00 * a.x12))
+  let t74 := ((a.x00 * a.x22) - (a.x20 * a.x02))
+  let t77 := ((a.x20 * a.x12) - (a.x10 * a.x22))
+  let t80 := ((a.x01 * a.x12) - (a.x11 * a.x02))
+  let t83 := ((a.x21 * a.x02) - (a.x01 * a.x22))
+  let t86 := ((a.x11 * a.x22) - (a.x21 * a.x12))
+  let t91 := (((a.x00 * t86) + (a.x01 * t77)) + (a.x02 * t68))
+  let t92 := (sabs t91)
+  let t93 := (t86 / t91)
+  let t94 := (t83 / t91)
+  let t95 := (t80 / t91)
+  let t96 := (t77 / t91)
+  let t97 := (t74 / t91)
+  let t98 := (t71 / t91)
+  let t99 := (t68 / t91)
+  let t100 := (t65 / t91)
+  let t101 := (t39 / t91)
+  let t102 := (t92 / tmin)
+  let t103 := (sabs t86)
+  let t104 := (sabs t83)
+  let t105 := (sabs t80)
+  let t106 := (sabs t77)
+  let t107 := (sabs t74)
+  let t108 := (sabs t71)
+  let t109 := (sabs t68)
+  let t110 := (sabs t65)
+  let t120 := (-a.x30)
+  let t123 := (((t120 * t93) - (a.x31 * t96)) - (a.x32 * t99))
+  let t128 := (((t120 * t94) - (a.x31 * t97)) - (a.x32 * t100))
+  let t133 := (((t120 * t95) - (a.x31 * t98)) - (a.x32 * t101))
+  let t134 := (gj44 ⟨a.x00, a.x01, a.x02, a.x03, a.x10, a.x11, a.x12, a.x13, a.x20, a.x21, a.x22, a.x23, a.x30, a.x31, a.x32, a.x33⟩)
   if a.x03 = (0 : α) then
     if a.x13 = (0 : α) then
       if a.x23 = (0 : α) then
         if a.x33 = (1 : α) then
-          if (1 : α) ≤ t94 then
-            ⟨t95, t96, t97, (0 : α), t98, t99, t100, (0 : α), t101, t102, t103, (0 : α), t125, t130, t135, (1 : α)⟩
+          if (1 : α) ≤ t92 then
+            ⟨t93, t94, t95, (0 : α), t96, t97, t98, (0 : α), t99, t100, t101, (0 : α), t123, t128, t133, (1 : α)⟩
           else
-            if t105 < t104 then
-              if t106 < t104 then
-                if t107 < t104 then
-                  if t108 < t104 then
-                    if t109 < t104 then
-                      if t110 < t104 then
-                        if t111 < t104 then
-                          if t112 < t104 then
-                            if t40 < t104 then
-                              ⟨t95, t96, t97, (0 : α), t98, t99, t100, (0 : α), t101, t102, t103, (0 : α), t125, t130, t135, (1 : α)⟩
+            if t103 < t102 then
+              if t104 < t102 then
+                if t105 < t102 then
+                  if t106 < t102 then
+                    if t107 < t102 then
+                      if t108 < t102 then
+                        if t109 < t102 then
+                          if t110 < t102 then
+                            if t40 < t102 then
+                              ⟨t93, t94, t95, (0 : α), t96, t97, t98, (0 : α), t99, t100, t101, (0 : α), t123, t128, t133, (1 : α)⟩
                             else
                               ⟨(1 : α), (0 : α), (0 : α), (0 : α), (0 : α), (1 : α), (0 : α), (0 : α), (0 : α), (0 : α), (1 : α), (0 : α), (0 : α), (0 : α), (0 : α), (1 : α)⟩
                           else
@@ -1497,68 +1497,68 @@ def C07.M44.invert0 {α : Type} [Add α] [Sub α] [Mul α] [Div α] [Neg α] [LT
             else
               ⟨(1 : α), (0 : α), (0 : α), (0 : α), (0 : α), (1 : α), (0 : α), (0 : α), (0 : α), (0 : α), (1 : α), (0 : α), (0 : α), (0 : α), (0 : α), (1 : α)⟩
         else
-          ⟨(t136).x00, (t136).x01, (t136).x02, (t136).x03, (t136).x10, (t136).x11, (t136).x12, (t136).x13, (t136).x20, (t136).x21, (t136).x22, (t136).x23, (t136).x30, (t136).x31, (t136).x32, (t136).x33⟩
+          ⟨(t134).x00, (t134).x01, (t134).x02, (t134).x03, (t134).x10, (t134).x11, (t134).x12, (t134).x13, (t134).x20, (t134).x21, (t134).x22, (t134).x23, (t134).x30, (t134).x31, (t134).x32, (t134).x33⟩
       else
-        ⟨(t136).x00, (t136).x01, (t136).x02, (t136).x03, (t136).x10, (t136).x11, (t136).x12, (t136).x13, (t136).x20, (t136).x21, (t136).x22, (t136).x23, (t136).x30, (t136).x31, (t136).x32, (t136).x33⟩
+        ⟨(t134).x00, (t134).x01, (t134).x02, (t134).x03, (t134).x10, (t134).x11, (t134).x12, (t134).x13, (t134).x20, (t134).x21, (t134).x22, (t134).x23, (t134).x30, (t134).x31, (t134).x32, (t134).x33⟩
     else
-      ⟨(t136).x00, (t136).x01, (t136).x02, (t136).x03, (t136).x10, (t136).x11, (t136).x12, (t136).x13, (t136).x20, (t136).x21, (t136).x22, (t136).x23, (t136).x30, (t136).x31, (t136).x32, (t136).x33⟩
+      ⟨(t134).x00, (t134).x01, (t134).x02, (t134).x03, (t134).x10, (t134).x11, (t134).x12, (t134).x13, (t134).x20, (t134).x21, (t134).x22, (t134).x23, (t134).x30, (t134).x31, (t134).x32, (t134).x33⟩
   else
-    ⟨(t136).x00, (t136).x01, (t136).x02, (t136).x03, (t136).x10, (t136).x11, (t136).x12, (t136).x13, (t136).x20, (t136).x21, (t136).x22, (t136).x23, (t136).x30, (t136).x31, (t136).x32, (t136).x33⟩
+    ⟨(t134).x00, (t134).x01, (t134).x02, (t134).x03, (t134).x10, (t134).x11, (t134).x12, (t134).x13, (t134).x20, (t134).x21, (t134).x22, (t134).x23, (t134).x30, (t134).x31, (t134).x32, (t134).x33⟩
 
 /-- extracted from the C++ template at T = Sym; 15 path(s) -/
 def C07.M44.invertF {α : Type} [Add α] [Sub α] [Mul α] [Div α] [Neg α] [LT α] [LE α] [DecidableLT α] [DecidableLE α] [DecidableEq α] [OfNat α 0] [OfNat α 1] (tmin : α) (gj44F : M44 α → M44 α) (a : M44 α) : (M44 α) :=
   let t39 := ((a.x00 * a.x11) - (a.x10 * a.x01))
   let t40 := (sabs t39)
-  let t67 := ((a.x20 * a.x01) - (a.x00 * a.x21))
-  let t70 := ((a.x10 * a.x21) - (a.x20 * a.x11))
-  let t73 := ((a.x10 * a.x02) - (a.x00 * a.x12))
-  let t76 := ((a.x00 * a.x22) - (a.x20 * a.x02))
-  let t79 := ((a.x20 * a.x12) - (a.x10 * a.x22))
-  let t82 := ((a.x01 * a.x12) - (a.x11 * a.x02))
-  let t85 := ((a.x21 * a.x02) - (a.x01 * a.x22))
-  let t88 := ((a.x11 * a.x22) - (a.x21 * a.x12))
-  let t93 := (((a.x00 * t88) + (a.x01 * t79)) + (a.x02 * t70))
-  let t94 := (sabs t93)
-  let t95 := (t88 / t93)
-  let t96 := (t85 / t93)
-  let t97 := (t82 / t93)
-  let t98 := (t79 / t93)
-  let t99 := (t76 / t93)
-  let t100 := (t73 / t93)
-  let t101 := (t70 / t93)
-  let t102 := (t67 / t93)
-  let t103 := (t39 / t93)
-  let t104 := (t94 / tmin)
-  let t105 := (sabs t88)
-  let t106 := (sabs t85)
-  let t107 := (sabs t82)
-  let t108 := (sabs t79)
-  let t109 := (sabs t76)
-  let t110 := (sabs t73)
-  let t111 := (sabs t70)
-  let t112 := (sabs t67)
-  let t122 := (-a.x30)
-  let t125 := (((t122 * t95) - (a.x31 * t98)) - (a.x32 * t101))
-  let t130 := (((t122 * t96) - (a.x31 * t99)) - (a.x32 * t102))
-  let t135 := (((t122 * t97) - (a.x31 * t100)) - (a.x32 * t103))
-  let t153 := (gj44F ⟨a.x00, a.x01, a.x02, a.x03, a.x10, a.x11, a.x12, a.x13, a.x20, a.x21, a.x22, a.x23, a.x30, a.x31, a.x32, a.x33⟩)
+  let t65 := ((a.x20 * a.x01) - (a.x00 * a.x21))
+  let t68 := ((a.x10 * a.x21) - (a.x20 * a.x11))
+  let t71 := ((a.x10 * a.x02) - (a.x00 * a.x12))
+  let t74 := ((a.x00 * a.x22) - (a.x20 * a.x02))
+  let t77 := ((a.x20 * a.x12) - (a.x10 * a.x22))
+  let t80 := ((a.x01 * a.x12) - (a.x11 * a.x02))
+  let t83 := ((a.x21 * a.x02) - (a.x01 * a.x22))
+  let t86 := ((a.x11 * a.x22) - (a.x21 * a.x12))
+  let t91 := (((a.x00 * t86) + (a.x01 * t77)) + (a.x02 * t68))
+  let t92 := (sabs t91)
+  let t93 := (t86 / t91)
+  let t94 := (t83 / t91)
+  let t95 := (t80 / t91)
+  let t96 := (t77 / t91)
+  let t97 := (t74 / t91)
+  let t98 := (t71 / t91)
+  let t99 := (t68 / t91)
+  let t100 := (t65 / t91)
+  let t101 := (t39 / t91)
+  let t102 := (t92 / tmin)
+  let t103 := (sabs t86)
+  let t104 := (sabs t83)
+  let t105 := (sabs t80)
+  let t106 := (sabs t77)
+  let t107 := (sabs t74)
+  let t108 := (sabs t71)
+  let t109 := (sabs t68)
+  let t110 := (sabs t65)
+  let t120 := (-a.x30)
+  let t123 := (((t120 * t93) - (a.x31 * t96)) - (a.x32 * t99))
+  let t128 := (((t120 * t94) - (a.x31 * t97)) - (a.x32 * t100))
+  let t133 := (((t120 * t95) - (a.x31 * t98)) - (a.x32 * t101))
+  let t151 := (gj44F ⟨a.x00, a.x01, a.x02, a.x03, a.x10, a.x11, a.x12, a.x13, a.x20, a.x21, a.x22, a.x23, a.x30, a.x31, a.x32, a.x33⟩)
   if a.x03 = (0 : α) then
     if a.x13 = (0 : α) then
       if a.x23 = (0 : α) then
         if a.x33 = (1 : α) then
-          if (1 : α) ≤ t94 then
-            ⟨t95, t96, t97, (0 : α), t98, t99, t100, (0 : α), t101, t102, t103, (0 : α), t125, t130, t135, (1 : α)⟩
+          if (1 : α) ≤ t92 then
+            ⟨t93, t94, t95, (0 : α), t96, t97, t98, (0 : α), t99, t100, t101, (0 : α), t123, t128, t133, (1 : α)⟩
           else
-            if t105 < t104 then
-              if t106 < t104 then
-                if t107 < t104 then
-                  if t108 < t104 then
-                    if t109 < t104 then
-                      if t110 < t104 then
-                        if t111 < t104 then
-                          if t112 < t104 then
-                            if t40 < t104 then
-                              ⟨t95, t96, t97, (0 : α), t98, t99, t100, (0 : α), t101, t102, t103, (0 : α), t125, t130, t135, (1 : α)⟩
+            if t103 < t102 then
+              if t104 < t102 then
+                if t105 < t102 then
+                  if t106 < t102 then
+                    if t107 < t102 then
+                      if t108 < t102 then
+                        if t109 < t102 then
+                          if t110 < t102 then
+                            if t40 < t102 then
+                              ⟨t93, t94, t95, (0 : α), t96, t97, t98, (0 : α), t99, t100, t101, (0 : α), t123, t128, t133, (1 : α)⟩
                             else
                               ⟨(1 : α), (0 : α), (0 : α), (0 : α), (0 : α), (1 : α), (0 : α), (0 : α), (0 : α), (0 : α), (1 : α), (0 : α), (0 : α), (0 : α), (0 : α), (1 : α)⟩
                           else
@@ -1578,69 +1578,69 @@ def C07.M44.invertF {α : Type} [Add α] [Sub α] [Mul α] [Div α] [Neg α] [LT
             else
               ⟨(1 : α), (0 : α), (0 : α), (0 : α), (0 : α), (1 : α), (0 : α), (0 : α), (0 : α), (0 : α), (1 : α), (0 : α), (0 : α), (0 : α), (0 : α), (1 : α)⟩
         else
-          ⟨(t153).x00, (t153).x01, (t153).x02, (t153).x03, (t153).x10, (t153).x11, (t153).x12, (t153).x13, (t153).x20, (t153).x21, (t153).x22, (t153).x23, (t153).x30, (t153).x31, (t153).x32, (t153).x33⟩
+          ⟨(t151).x00, (t151).x01, (t151).x02, (t151).x03, (t151).x10, (t151).x11, (t151).x12, (t151).x13, (t151).x20, (t151).x21, (t151).x22, (t151).x23, (t151).x30, (t151).x31, (t151).x32, (t151).x33⟩
       else
-        ⟨(t153).x00, (t153).x01, (t153).x02, (t153).x03, (t153).x10, (t153).x11, (t153).x12, (t153).x13, (t153).x20, (t153).x21, (t153).x22, (t153).x23, (t153).x30, (t153).x31, (t153).x32, (t153).x33⟩
+        ⟨(t151).x00, (t151).x01, (t151).x02, (t151).x03, (t151).x10, (t151).x11, (t151).x12, (t151).x13, (t151).x20, (t151).x21, (t151).x22, (t151).x23, (t151).x30, (t151).x31, (t151).x32, (t151).x33⟩
     else
-      ⟨(t153).x00, (t153).x01, (t153).x02, (t153).x03, (t153).x10, (t153).x11, (t153).x12, (t153).x13, (t153).x20, (t153).x21, (t153).x22, (t153).x23, (t153).x30, (t153).x31, (t153).x32, (t153).x33⟩
+      ⟨(t151).x00, (t151).x01, (t151).x02, (t151).x03, (t151).x10, (t151).x11, (t151).x12, (t151).x13, (t151).x20, (t151).x21, (t151).x22, (t151).x23, (t151).x30, (t151).x31, (t151).x32, (t151).x33⟩
   else
-    ⟨(t153).x00, (t153).x01, (t153).x02, (t153).x03, (t153).x10, (t153).x11, (t153).x12, (t153).x13, (t153).x20, (t153).x21, (t153).x22, (t153).x23, (t153).x30, (t153).x31, (t153).x32, (t153).x33⟩
+    ⟨(t151).x00, (t151).x01, (t151).x02, (t151).x03, (t151).x10, (t151).x11, (t151).x12, (t151).x13, (t151).x20, (t151).x21, (t151).x22, (t151).x23, (t151).x30, (t151).x31, (t151).x32, (t151).x33⟩
 
 /-- extracted from the C++ template at T = Sym; 19 path(s) -/
 def C07.M44.invertT {α : Type} [Add α] [Sub α] [Mul α] [Div α] [Neg α] [LT α] [LE α] [DecidableLT α] [DecidableLE α] [DecidableEq α] [OfNat α 0] [OfNat α 1] (tmin : α) (gj44Tstatus : M44 α → α) (gj44Tvalue : M44 α → M44 α) (a : M44 α) : Except Exc (M44 α) :=
   let t39 := ((a.x00 * a.x11) - (a.x10 * a.x01))
   let t40 := (sabs t39)
-  let t67 := ((a.x20 * a.x01) - (a.x00 * a.x21))
-  let t70 := ((a.x10 * a.x21) - (a.x20 * a.x11))
-  let t73 := ((a.x10 * a.x02) - (a.x00 * a.x12))
-  let t76 := ((a.x00 * a.x22) - (a.x20 * a.x02))
-  let t79 := ((a.x20 * a.x12) - (a.x10 * a.x22))
-  let t82 := ((a.x01 * a.x12) - (a.x11 * a.x02))
-  let t85 := ((a.x21 * a.x02) - (a.x01 * a.x22))
-  let t88 := ((a.x11 * a.x22) - (a.x21 * a.x12))
-  let t93 := (((a.x00 * t88) + (a.x01 * t79)) + (a.x02 * t70))
-  let t94 := (sabs t93)
-  let t95 := (t88 / t93)
-  let t96 := (t85 / t93)
-  let t97 := (t82 / t93)
-  let t98 := (t79 / t93)
-  let t99 := (t76 / t93)
-  let t100 := (t73 / t93)
-  let t101 := (t70 / t93)
-  let t102 := (t67 / t93)
-  let t103 := (t39 / t93)
-  let t104 := (t94 / tmin)
-  let t105 := (sabs t88)
-  let t106 := (sabs t85)
-  let t107 := (sabs t82)
-  let t108 := (sabs t79)
-  let t109 := (sabs t76)
-  let t110 := (sabs t73)
-  let t111 := (sabs t70)
-  let t112 := (sabs t67)
-  let t122 := (-a.x30)
-  let t125 := (((t122 * t95) - (a.x31 * t98)) - (a.x32 * t101))
-  let t130 := (((t122 * t96) - (a.x31 * t99)) - (a.x32 * t102))
-  let t135 := (((t122 * t97) - (a.x31 * t100)) - (a.x32 * t103))
-  let t170 := (gj44Tstatus ⟨a.x00, a.x01, a.x02, a.x03, a.x10, a.x11, a.x12, a.x13, a.x20, a.x21, a.x22, a.x23, a.x30, a.x31, a.x32, a.x33⟩)
-  let t171 := (gj44Tvalue ⟨a.x00, a.x01, a.x02, a.x03, a.x10, a.x11, a.x12, a.x13, a.x20, a.x21, a.x22, a.x23, a.x30, a.x31, a.x32, a.x33⟩)
+  let t65 := ((a.x20 * a.x01) - (a.x00 * a.x21))
+  let t68 := ((a.x10 * a.x21) - (a.x20 * a.x11))
+  let t71 := ((a.x10 * a.x02) - (a.x00 * a.x12))
+  let t74 := ((a.x00 * a.x22) - (a.x20 * a.x02))
+  let t77 := ((a.x20 * a.x12) - (a.x10 * a.x22))
+  let t80 := ((a.x01 * a.x12) - (a.x11 * a.x02))
+  let t83 := ((a.x21 * a.x02) - (a.x01 * a.x22))
+  let t86 := ((a.x11 * a.x22) - (a.x21 * a.x12))
+  let t91 := (((a.x00 * t86) + (a.x01 * t77)) + (a.x02 * t68))
+  let t92 := (sabs t91)
+  let t93 := (t86 / t91)
+  let t94 := (t83 / t91)
+  let t95 := (t80 / t91)
+  let t96 := (t77 / t91)
+  let t97 := (t74 / t91)
+  let t98 := (t71 / t91)
+  let t99 := (t68 / t91)
+  let t100 := (t65 / t91)
+  let t101 := (t39 / t91)
+  let t102 := (t92 / tmin)
+  let t103 := (sabs t86)
+  let t104 := (sabs t83)
+  let t105 := (sabs t80)
+  let t106 := (sabs t77)
+  let t107 := (sabs t74)
+  let t108 := (sabs t71)
+  let t109 := (sabs t68)
+  let t110 := (sabs t65)
+  let t120 := (-a.x30)
+  let t123 := (((t120 * t93) - (a.x31 * t96)) - (a.x32 * t99))
+  let t128 := (((t120 * t94) - (a.x31 * t97)) - (a.x32 * t100))
+  let t133 := (((t120 * t95) - (a.x31 * t98)) - (a.x32 * t101))
+  let t168 := (gj44Tstatus ⟨a.x00, a.x01, a.x02, a.x03, a.x10, a.x11, a.x12, a.x13, a.x20, a.x21, a.x22, a.x23, a.x30, a.x31, a.x32, a.x33⟩)
+  let t169 := (gj44Tvalue ⟨a.x00, a.x01, a.x02, a.x03, a.x10, a.x11, a.x12, a.x13, a.x20, a.x21, a.x22, a.x23, a.x30, a.x31, a.x32, a.x33⟩)
   if a.x03 = (0 : α) then
     if a.x13 = (0 : α) then
       if a.x23 = (0 : α) then
         if a.x33 = (1 : α) then
-          if (1 : α) ≤ t94 then
-            .ok (⟨t95, t96, t97, (0 : α), t98, t99, t100, (0 : α), t101, t102, t103, (0 : α), t125, t130, t135, (1 : α)⟩)
+          if (1 : α) ≤ t92 then
+            .ok (⟨t93, t94, t95, (0 : α), t96, t97, t98, (0 : α), t99, t100, t101, (0 : α), t123, t128, t133, (1 : α)⟩)
           else
-            if t105 < t104 then
-              if t106 < t104 then
-                if t107 < t104 then
-                  if t108 < t104 then
-                    if t109 < t104 then
-                      if t110 < t104 then
-                        if t111 < t104 then
-                          if t112 < t104 then
-                            if t40 < t104 then
-                              .ok (⟨t95, t96, t97, (0 : α), t98, t99, t100, (0 : α), t101, t102, t103, (0 : α), t125, t130, t135, (1 : α)⟩)
+            if t103 < t102 then
+              if t104 < t102 then
+                if t105 < t102 then
+                  if t106 < t102 then
+                    if t107 < t102 then
+                      if t108 < t102 then
+                        if t109 < t102 then
+                          if t110 < t102 then
+                            if t40 < t102 then
+                              .ok (⟨t93, t94, t95, (0 : α), t96, t97, t98, (0 : α), t99, t100, t101, (0 : α), t123, t128, t133, (1 : α)⟩)
                             else
                               .error Exc.invalidArgument
                           else
@@ -1660,23 +1660,23 @@ def C07.M44.invertT {α : Type} [Add α] [Sub α] [Mul α] [Div α] [Neg α] [LT
             else
               .error Exc.invalidArgument
         else
-          if t170 = (0 : α) then
-            .ok (⟨(t171).x00, (t171).x01, (t171).x02, (t171).x03, (t171).x10, (t171).x11, (t171).x12, (t171).x13, (t171).x20, (t171).x21, (t171).x22, (t171).x23, (t171).x30, (t171).x31, (t171).x32, (t171).x33⟩)
+          if t168 = (0 : α) then
+            .ok (⟨(t169).x00, (t169).x01, (t169).x02, (t169).x03, (t169).x10, (t169).x11, (t169).x12, (t169).x13, (t169).x20, (t169).x21, (t169).x22, (t169).x23, (t169).x30, (t169).x31, (t169).x32, (t169).x33⟩)
           else
             .error Exc.invalidArgument
       else
-        if t170 = (0 : α) then
-          .ok (⟨(t171).x00, (t171).x01, (t171).x02, (t171).x03, (t171).x10, (t171).x11, (t171).x12, (t171).x13, (t171).x20, (t171).x21, (t171).x22, (t171).x23, (t171).x30, (t171).x31, (t171).x32, (t171).x33⟩)
+        if t168 = (0 : α) then
+          .ok (⟨(t169).x00, (t169).x01, (t169).x02, (t169).x03, (t169).x10, (t169).x11, (t169).x12, (t169).x13, (t169).x20, (t169).x21, (t169).x22, (t169).x23, (t169).x30, (t169).x31, (t169).x32, (t169).x33⟩)
         else
           .error Exc.invalidArgument
     else
-      if t170 = (0 : α) then
-        .ok (⟨(t171).x00, (t171).x01, (t171).x02, (t171).x03, (t171).x10, (t171).x11, (t171).x12, (t171).x13, (t171).x20, (t171).x21, (t171).x22, (t171).x23, (t171).x30, (t171).x31, (t171).x32, (t171).x33⟩)
+      if t168 = (0 : α) then
+        .ok (⟨(t169).x00, (t169).x01, (t169).x02, (t169).x03, (t169).x10, (t169).x11, (t169).x12, (t169).x13, (t169).x20, (t169).x21, (t169).x22, (t169).x23, (t169).x30, (t169).x31, (t169).x32, (t169).x33⟩)
       else
         .error Exc.invalidArgument
   else
-    if t170 = (0 : α) then
-      .ok (⟨(t171).x00, (t171).x01, (t171).x02, (t171).x03, (t171).x10, (t171).x11, (t171).x12, (t171).x13, (t171).x20, (t171).x21, (t171).x22, (t171).x23, (t171).x30, (t171).x31, (t171).x32, (t171).x33⟩)
+    if t168 = (0 : α) then
+      .ok (⟨(t169).x00, (t169).x01, (t169).x02, (t169).x03, (t169).x10, (t169).x11, (t169).x12, (t169).x13, (t169).x20, (t169).x21, (t169).x22, (t169).x23, (t169).x30, (t169).x31, (t169).x32, (t169).x33⟩)
     else
       .error Exc.invalidArgument
 
